@@ -1,65 +1,94 @@
 """C13  All ways of reading the same source deliver the same data.
 
 One driver reads the SAME document text (Newick, NEXUS or NeXML, produced as text by the templates in
-_c13_util.py - several TREES blocks, TRANSLATE tables, comments everywhere, [&W] weights, mixed [&R]/[&U],
-metadata comments, blank statements, several <trees>/<otus> elements, CR / CRLF line ends) with ONE option set
-through every route and every kind of source and appends one log entry per call:
+_c13_util.py - several TREES blocks (also empty ones), one to three TITLEd TAXA blocks with LINKed TREES / CHARACTERS
+blocks, TRANSLATE tables, comments everywhere, [&W] weights, mixed [&R]/[&U], metadata comments, .jplace edge numbers,
+blank statements, several <trees>/<otus> elements (also empty <trees>), hand-written NeXML <characters>, CR / CRLF
+line ends) with ONE option set through every route and every kind of source and appends one log entry per call:
 
-    full routes     TreeList.get | TreeList.read (twice into one list) | Tree.yield_from_files (also two files in a
-                    row) | DataSet.get | DataSet.read (into a data set that already holds a previous read)
-    offset routes   Tree.get(collection_offset, tree_offset) for every valid pair (+ defaults) | TreeList.get /
-                    TreeList.read with collection_offset / tree_offset (negative offsets as documented)
-    array routes    TreeArray.read | TreeArray.read_from_files (with and without tree_offset)
-    matrix routes   <Type>CharacterMatrix.get(matrix_offset=i)  against  DataSet.get(...).char_matrices[i]
+    full routes     TreeList.get | TreeList.read (twice into one list, then an OFFSET read into that filled list) |
+                    Tree.yield_from_files (also two files in a row) | DataSet.get (also with exclude_chars=True) |
+                    DataSet.read (into a data set that already holds a previous read; also exclude_chars=True)
+    offset routes   Tree.get(collection_offset, tree_offset) for every valid pair (+ defaults, + negative offsets) |
+                    TreeList.get / TreeList.read with collection_offset / tree_offset (negative offsets and
+                    collection-only requests as documented) | one request that addresses nothing, put to all three
+    array routes    TreeArray.read (a second read goes into the array that holds the first) |
+                    TreeArray.read_from_files (with and without tree_offset)
+    matrix routes   <Type>CharacterMatrix.get(matrix_offset=i)  against  DataSet.get(...).char_matrices[i], also
+                    DataSet.get(exclude_trees=True), DataSet.read twice into one data set
     sources         data= / string= (text), file= (io.StringIO), stream= (open file), path= (str and pathlib)
+    namespaces      fresh per call | one shared by all calls (empty, pre-populated, unrelated taxa) | additionally
+                    every route once on an EMPTY namespace of its own handed in by the client
+
+The calls of a phase are laid out in a declared order (all random choices are made then) and EXECUTED IN A SHUFFLED
+ORDER, so that every route gets its turn at being the first call on the empty shared namespace (for documents with
+matrices the matrix phase runs before the tree phase half of the time); judging only looks at the declared order.
 
 Each entry holds a canonical record per delivered tree, read from the raw fields (vf.bridge.extract): ordered
 shape, taxon label / node label / edge length (repr, so 1 != 1.0) per pre-order node, rooting flag, weight, tree
-label, tree comments and annotations, per-node and per-edge comments / annotations / labels, and the Taxon objects.
-The verdict is an OFFLINE comparison of the log (judge()): the first full route that delivered is the reference;
-for every other entry each differing clause is reported once, the first tree that shows it being the witness (so a
-known difference in one clause cannot hide a new one in another).
+label, tree comments and annotations, per-node and per-edge comments / annotations / labels / edge numbers, and the
+Taxon objects.  The verdict is an OFFLINE comparison of the log (judge()): the first full route (declared order) that
+delivered is the reference; for every other entry each differing clause is reported once, the first tree that shows
+it being the witness (so a known difference in one clause cannot hide a new one in another).
 
   count / order     same number of trees, i-th tree equal to i-th tree (offset routes: the documented slice)
   clauses           shape, taxon-labels, node-labels, lengths, rooting, weight, tree-label, comments, annotations,
-                    node-comments, node-annotations, edge-labels, edge-annotations   (annotations as sorted multisets)
-  raised            a route raises where another route delivers (key carries exception class + innermost function)
-  taxon-identity    under a namespace shared by all calls: the Taxon object on every node IS the reference's
-  array             per tree: split set, per-split length and weight equal the values computed by vf.ref from the
-                    reference route's tree (splits translated through TaxonNamespace.taxon_bitmask)
-  matrix            class, data type, label, row taxa, cells (symbol, kind, member symbols), state alphabets,
-                    character subsets, comments, annotations; under a shared namespace identity of the row taxa
+                    node-comments, node-annotations, edge-labels, edge-annotations, edge-numbers (annotations as sorted multisets)
+  raised            a route raises where another route delivers (key carries exception class, innermost function,
+                    route family, namespace state, several-taxa-blocks, reader-mode option)
+  refused           a request that addresses nothing: the offset routes agree (one delivering where others refuse = divergence)
+  incremental       what a list / data set / array held before a read is still there afterwards (same objects, same order)
+  collections       the tree lists of a data set have the sizes of the collections that collection_offset addresses
+  taxon-identity    under a namespace shared by all calls: the Taxon object on every node IS the reference's;
+                    under a namespace of the route's own handed in empty: tree / matrix live in that object, taxa are its members
+  array             per tree: rooting flag, leaf set, split set, per-split length and weight equal the values computed by
+                    vf.ref from the reference route's tree (splits translated through TaxonNamespace.taxon_bitmask)
+  matrix            class, data type, label, row taxa, cells (symbol, kind, member symbols), state alphabets, which
+                    alphabet every column uses, character types, cell annotations, character subsets, comments,
+                    annotations; under a shared namespace identity of the row taxa
 
 Soundness limits actually implemented
-  * only options that every route accepts are varied; every route of a case gets the same options;
+  * only options that every route accepts are varied; every route of a case gets the same options (exclude_chars goes
+    to the tree routes only, exclude_trees to the matrix routes only: with them a tree / matrix read has nothing to read);
   * comments that belong to a tree LIST / data set (before the first TREE of a block, between blocks) are not
     compared - the iterator has nowhere to put them;
   * the order of annotations parsed from ONE metadata comment is arbitrary in the library (a Python set of
     id-hashed objects): annotations are compared as sorted multisets;
   * generated comments / quoted labels never contain line breaks: Python's universal-newline translation makes
     path= and an open file differ from a *string* for CR / CRLF inside a comment (recorded by a probe, not judged);
-    the same probe does judge path= against stream=open(path), which are the same file;
+    the same probe does judge path= (str and pathlib) against stream=open(path), which are the same file, for every route
+    including the ones that open files themselves (yield_from_files, TreeArray.read_from_files) and the matrix routes;
   * a final statement without ';' always ends in an edge length (see _c13_util.newick_body: otherwise the outcome depends
     on the number of trailing white-space characters, which newline translation changes - a tokenizer matter);
   * numeric taxon tokens are only generated where their meaning cannot depend on what an earlier call left in
-    the shared namespace (TRANSLATE tokens, or taxon numbers with a TAXA block);
+    the shared namespace (TRANSLATE tokens, or taxon numbers with ONE TAXA block);
   * TreeArray comparison only for trees without outdegree-1 nodes, with >= 3 leaves and a distinct taxon on every
     leaf, and only when all trees of the document have one rooting state (else MixedRootingError is documented);
     lengths only when no edge length is missing;
   * return values of read() (number of trees) are recorded, not judged;
   * all routes raising on a document is agreement (counted as 'all-routes-raised', never a verdict);
+  * negative offsets are documented for TreeList.get / TreeList.read only: Tree.get with negative offsets is judged when it
+    delivers (it has to be the tree list indexing selects) and noted when it refuses;
   * a matrix is a mapping taxon -> sequence: rows are compared sorted by label (iteration order is the order of the
-    namespace, which legitimately depends on whether a route parsed the TREES blocks before the matrix); when
-    DataSet.get itself cannot read the document there is no matrix to compare with (noted);
+    namespace, which legitimately depends on whether a route parsed the TREES blocks before the matrix); when the full
+    DataSet.get cannot read the document (it also parses the TREES blocks) the data set read with exclude_trees=True
+    is the reference; how many matrices a document "should" hold is not judged (note);
   * offsets are mapped through the block structure the template wrote; if the reference route sees another number
-    of trees (a label-only statement without terminator is silently dropped by every route) offset routes are skipped.
+    of trees (a label-only statement without terminator is silently dropped by every route) offset routes are skipped;
+  * a route that exceeds the step budget is not judged; the case is inconclusive (a performance effect, never a verdict);
+  * set-up calls (NEXUS -> NeXML conversion of two directed cases, the pre-population read) are protected: a failure is
+    a note / an inconclusive case, never a verdict.
 
 Violation keys:  <route family>|<clause>[|discriminator]|<schema>,  source|<route family>|<form>-vs-<form>|<clause>|<schema>,
-<route family>|re-created-existing-taxa|<schema>,  raised-where-others-deliver|<ExcClass>|<innermost function>|<schema>.
-Directed cases (always first) reproduce the four mechanisms found on the unchanged tree: Tree.get replaces the source's
+<route family>|re-created-existing-taxa|<schema>,
+raised-where-others-deliver|<ExcClass>|<innermost function>|<schema>|<route family>|<foreign-taxa | own-taxa-only>[|several-taxa-blocks][|opt:<option>]
+('foreign-taxa' = the namespace handed to the route held taxa that are not the document's before the case started).
+Directed cases (always first) reproduce the mechanisms found on the unchanged tree: Tree.get replaces the source's
 tree label by None; the NeXML reader re-creates taxa of a namespace handed in by the client; the NEXUS NTAX limit counts
 taxa that were in a shared namespace before the read (TooManyTaxaError); TreeList.get / DataSet.get build a
-case-insensitive namespace although case_sensitive_taxon_labels=True was requested (ValueError)."""
+case-insensitive namespace although case_sensitive_taxon_labels=True was requested (ValueError); a NEXUS document with
+two TITLEd TAXA blocks is refused by the routes that pool all blocks in one namespace."""
+import gc
 import io
 import locale
 import os
@@ -75,12 +104,14 @@ from . import _c13_util as U
 
 PROP = "C13"
 LEVEL = "exploration"
-TECHNIQUE = ("runtime monitoring: one driver reads the same generated document through every route / source kind, "
-             "records canonical per-tree logs; offline pairwise log comparison (first divergence = witness)")
+TECHNIQUE = ("runtime monitoring: one driver reads the same generated document through every route / source kind in a shuffled "
+             "call order, records canonical per-tree / per-matrix logs; offline pairwise log comparison in the declared order "
+             "(first divergence = witness)")
 RULE = ("cases = generated document (schema x template features x line ends) x one option set accepted by every route x "
         "namespace mode (fresh per call | one shared, empty | shared, pre-populated | shared, unrelated taxa) ; every case runs all "
-        "routes x source kinds x all valid offset pairs; non-trivial = document with >= 2 trees or >= 2 collections or a matrix; "
-        "distinct = (document text, options, namespace mode)")
+        "routes x source kinds x all valid offset pairs (+ negative, + one refused request) in a shuffled call order, incremental "
+        "reads into filled containers, and every route once on an empty namespace of its own; non-trivial = document with >= 2 "
+        "trees or >= 2 collections or a matrix; distinct = (document text, options, namespace mode)")
 REACH = ["newickreader:NewickReader._parse_tree_statement", "newickreader:NewickReader.tree_iter",
          "nexusreader:NexusReader._parse_trees_block", "nexusreader:NexusReader._parse_translate_statement",
          "nexusyielder:NexusTreeDataYielder._yield_from_trees_block",
@@ -94,28 +125,48 @@ REACH = ["newickreader:NewickReader._parse_tree_statement", "newickreader:Newick
          "basemodel:Deserializable._get_from", "basemodel:Deserializable.get_from_path",
          "basemodel:Deserializable.get_from_stream", "basemodel:Deserializable.get_from_string",
          "basemodel:MultiReadable._read_from", "basemodel:MultiReadable.read_from_path",
-         "ioservice:DataYielder.iterate_over_file"]
+         "ioservice:DataYielder.iterate_over_file", "ioservice:DataReader.read_dataset",
+         "nexusreader:NexusReader._parse_taxa_block", "nexusreader:NexusReader._parse_taxlabels_statement",
+         "nexusreader:NexusReader._get_taxon_namespace", "nexusreader:NexusReader._read_block_without_processing",
+         "nexmlreader:_NexmlCharBlockParser.parse_char_matrix"]
 MIN_EVENTS = {"tree-compared": (50000, 1000000), "route-entry-judged": (20000, 400000),
               "offset-pair-judged": (8000, 150000), "source-form-compared": (5000, 100000),
               "taxon-identity-judged": (20000, 400000), "namespace-growth-judged": (15000, 300000),
               "treearray-tree-judged": (1500, 30000), "matrix-compared": (800, 15000),
-              "yielder-second-file-judged": (500, 10000), "newline-probe-judged": (25, 25),
+              "yielder-second-file-judged": (500, 10000), "newline-probe-judged": (90, 90),
+              "directed-case-run": (26, 26), "prepopulate-read-ok": (100, 2000),
+              "client-namespace-judged": (3000, 60000), "collection-sizes-judged": (4000, 80000),
+              "earlier-content-judged": (3500, 70000), "negative-offset-judged": (2000, 40000),
+              "offset-read-into-filled-list-judged": (600, 12000), "refused-request-judged": (600, 12000),
+              "treearray-later-read-tree-judged": (900, 18000), "matrix-routes-before-tree-routes": (50, 1000),
+              # the shuffled call order gives every route family its turn on the still empty shared namespace
+              "first-call-on-empty-shared-namespace-judged:Tree.get": (60, 1200),
+              "first-call-on-empty-shared-namespace-judged:TreeList.get": (300, 6000),
+              "first-call-on-empty-shared-namespace-judged:TreeList.read": (80, 1600),
+              "first-call-on-empty-shared-namespace-judged:DataSet.get": (80, 1600),
+              "first-call-on-empty-shared-namespace-judged:DataSet.read": (25, 500),
+              "first-call-on-empty-shared-namespace-judged:yield_from_files": (250, 5000),
+              "first-call-on-empty-shared-namespace-judged:CharacterMatrix.get": (8, 160),
               "hook:NewickReader._parse_tree_statement:call": (60000, 1200000),
               "hook:NexusTreeDataYielder._yield_from_trees_block:call": (3000, 60000),
+              "hook:NexusReader._parse_taxa_block:call": (10000, 200000),
               "hook:_NexmlTreeParser.build_tree:call": (15000, 300000)}
 ASSUMPTIONS = ["documents are text produced by the harness templates; what they mean is never computed by the harness - only "
                "agreement of the routes is judged",
+               "the call order of the routes is shuffled per case; the verdict does not depend on it (the reference is chosen in "
+               "the declared order)",
                "records are read from raw fields (_child_nodes, _edge, taxon, _annotations, comments)",
                "TaxonNamespace.taxon_bitmask is taken as the given taxon->bit map when TreeArray contents are translated"]
-LEVEL_TEXT = ("A driver pushes each generated document through every reading route and source kind of the real library, logging a "
-              "canonical record per delivered tree / matrix; an offline checker compares the logs pairwise.")
+LEVEL_TEXT = ("A driver pushes each generated document through every reading route and source kind of the real library (shuffled call "
+              "order, fresh / shared / client-owned empty namespaces, incremental reads into filled containers), logging a canonical "
+              "record per delivered tree / matrix; an offline checker compares the logs pairwise.")
 LEVEL_NOTE = ("held = no log entry diverged from the reference entry on the documents explored. Trusted: the record extraction "
               "and comparison in vf/props/C13.py + _c13_util.py, vf/bridge.extract, vf/ref.split_lengths.")
 CASE_TIMEOUT = 120
 STEP_LIMIT = 3000000
 
 NSMODES = ("fresh", "shared-empty", "shared-prepopulated", "shared-unrelated")
-ROOTINGS = ("default-unrooted", "default-rooted", "force-unrooted", "force-rooted")
+ROOTINGS = ("default-unrooted", "default-rooted", "force-unrooted", "force-rooted", None)
 
 # ---------------------------------------------------------------------------------------------------
 # directed documents (witnesses of confirmed findings first)
@@ -148,6 +199,20 @@ D_NEXUS_CHARS = ("#NEXUS\nBEGIN TAXA;\n DIMENSIONS NTAX=3;\n TAXLABELS A B 'C c'
 D_NEXUS_DATA_BLOCK = ("#NEXUS\nBEGIN DATA;\n DIMENSIONS NTAX=3 NCHAR=4;\n FORMAT DATATYPE=DNA;\n MATRIX\n  A ACGT\n  B ACGA\n  C AC-T\n ;\nEND;\n"
                       "BEGIN TREES;\n TREE only = [&R] (A,B);\nEND;\n")
 
+# Mesquite-style documents: several TITLEd TAXA blocks, every other block LINKed to one of them
+D_NEXUS_TWO_TAXA = ("#NEXUS\nBEGIN TAXA;\n TITLE first;\n DIMENSIONS NTAX=3;\n TAXLABELS A B C;\nEND;\nBEGIN TAXA;\n TITLE second;\n"
+                    " DIMENSIONS NTAX=3;\n TAXLABELS X Y Z;\nEND;\nBEGIN TREES;\n LINK TAXA = first;\n TREE t1 = (A,(B,C));\nEND;\n"
+                    "BEGIN TREES;\n LINK TAXA = second;\n TREE t2 = (X,(Y,Z));\nEND;\n")
+D_NEXUS_TWO_TAXA_SAME = D_NEXUS_TWO_TAXA.replace("X Y Z", "C B A").replace("(X,(Y,Z))", "(C,(B,A))")
+D_NEXUS_TWO_TAXA_CHARS = ("#NEXUS\nBEGIN TAXA;\n TITLE first;\n DIMENSIONS NTAX=3;\n TAXLABELS A B C;\nEND;\nBEGIN TAXA;\n TITLE second;\n"
+                          " DIMENSIONS NTAX=2;\n TAXLABELS X B;\nEND;\nBEGIN CHARACTERS;\n TITLE m1;\n LINK TAXA = second;\n DIMENSIONS NCHAR=3;\n"
+                          " FORMAT DATATYPE=DNA;\n MATRIX\n  X ACG\n  B A-T\n ;\nEND;\nBEGIN TREES;\n LINK TAXA = first;\n TREE t1 = (A,(B,C));\nEND;\n")
+D_NEXUS_EMPTY_TREES = ("#NEXUS\nBEGIN TREES;\nEND;\nBEGIN TREES;\n TREE a = (A,(B,C));\n TREE b = (B,(A,C));\nEND;\nBEGIN TREES;\n TITLE none;\nEND;\n")
+D_NEXML_EMPTY_TREES = D_NEXML.replace(' <trees id="ts2"', ' <trees id="ts0" otus="o1"></trees>\n <trees id="ts2"')
+
+DIRECTED_META = {"nexus-two-taxa-blocks-fresh": {"taxa_blocks": 2}, "nexus-two-taxa-blocks-shared": {"taxa_blocks": 2},
+                 "nexus-two-taxa-blocks-same-labels": {"taxa_blocks": 2}, "nexus-two-taxa-blocks-chars": {"taxa_blocks": 2}}
+
 DIRECTED = [
     # name, schema, text, blocks, matrices, options, nsmode
     ("tree-get-label", "nexus", D_NEXUS_NAMES, [2], [], {}, "fresh"),
@@ -171,6 +236,14 @@ DIRECTED = [
     ("nexml-chars-fresh", "nexml-via-writer", D_NEXUS_DATA_BLOCK, [1], ["dna"], {}, "fresh"),
     ("nexus-chars", "nexus", D_NEXUS_CHARS, [1], ["dna", "standard"], {}, "fresh"),
     ("nexus-chars-shared", "nexus", D_NEXUS_CHARS, [1], ["dna", "standard"], {}, "shared-empty"),
+    ("nexus-two-taxa-blocks-fresh", "nexus", D_NEXUS_TWO_TAXA, [1, 1], [], {}, "fresh"),
+    ("nexus-two-taxa-blocks-shared", "nexus", D_NEXUS_TWO_TAXA, [1, 1], [], {}, "shared-empty"),
+    ("nexus-two-taxa-blocks-same-labels", "nexus", D_NEXUS_TWO_TAXA_SAME, [1, 1], [], {}, "fresh"),
+    ("nexus-two-taxa-blocks-chars", "nexus", D_NEXUS_TWO_TAXA_CHARS, [1], ["dna"], {}, "fresh"),
+    ("nexus-empty-trees-blocks", "nexus", D_NEXUS_EMPTY_TREES, [2], [], {}, "shared-empty"),
+    ("nexml-empty-trees-element", "nexml", D_NEXML_EMPTY_TREES, [1, 0, 1], [], {}, "fresh"),
+    ("newick-jplace", "newick", "((A:1{0},B:1{1}):1{2},C:1{3}){4};(A{0},(B{2},C{1}){3});", [2], [], {"is_parse_jplace_tokens": True}, "shared-empty"),
+    ("newick-labels-to-edges", "newick", "((A,B)ab:1,(C,D)cd:2)r;((A,C)x,(B,D)y);", [2], [], {"is_assign_internal_labels_to_edges": True}, "fresh"),
 ]
 
 
@@ -178,10 +251,10 @@ def cases(tier, seed):
     for d in DIRECTED:
         yield {"kind": "directed", "name": d[0], "seed": seed}
     yield {"kind": "newline-probe", "seed": seed}
-    n = 1500 if tier == "quick" else 36000
+    n = 1500 if tier == "quick" else 32000
     for i in range(n):
         yield {"kind": "doc", "i": i, "seed": seed}
-    n = 350 if tier == "quick" else 8000
+    n = 350 if tier == "quick" else 7500
     for i in range(n):
         yield {"kind": "chars", "i": i, "seed": seed}
 
@@ -190,14 +263,24 @@ def cases(tier, seed):
 def make_options(rng, schema):
     """(options accepted by every route, template constraints that keep the document valid under them)"""
     o, force = {}, {}
+    if rng.random() < 0.08:
+        # the switch is only meaningful together with a keyword no reader knows
+        o["ignore_unrecognized_keyword_arguments"] = True
+        o["bogus_option"] = 1
     if schema == "nexml":
         if rng.random() < 0.1:
             o["case_sensitive_taxon_labels"] = True
-        if rng.random() < 0.1:
-            o["ignore_unrecognized_keyword_arguments"] = True
+        if rng.random() < 0.06:
+            o["suppress_leaf_node_taxa"] = True
+        if rng.random() < 0.06:
+            o["suppress_internal_node_taxa"] = rng.random() < 0.5
         return o, force
-    if rng.random() < 0.5:
+    r = rng.random()
+    if r < 0.5:
         o["rooting"] = rng.choice(ROOTINGS)
+    elif r < 0.54:
+        # legacy spellings (deprecated, still accepted by every route)
+        o[rng.choice(["as_rooted", "default_as_rooted"])] = rng.random() < 0.6
     if rng.random() < 0.3:
         o["preserve_underscores"] = rng.random() < 0.7
     if rng.random() < 0.45:
@@ -207,8 +290,12 @@ def make_options(rng, schema):
     if rng.random() < 0.2:
         o["suppress_internal_node_taxa"] = False
         force["taxa_internal"] = True
+    elif rng.random() < 0.12:
+        # internal labels are stored on the edges instead of the nodes (needs suppress_internal_node_taxa=True, the default)
+        o["is_assign_internal_labels_to_edges"] = True
+        force["internal_labels"] = rng.choice(["mixed", "numeric", "unique"])
     if rng.random() < 0.08:
-        o["suppress_leaf_node_taxa"] = True
+        o[rng.choice(["suppress_leaf_node_taxa", "suppress_leaf_node_taxa", "suppress_external_node_taxa"])] = True
     if rng.random() < 0.12:
         o["case_sensitive_taxon_labels"] = True
     if rng.random() < 0.12:
@@ -217,18 +304,36 @@ def make_options(rng, schema):
             force["no_final_semicolon"] = True
     elif schema == "newick" and rng.random() < 0.02:
         force["no_final_semicolon"] = True     # every route must refuse
-    if rng.random() < 0.08:
+    r = rng.random()
+    if r < 0.08:
         o["edge_length_type"] = "int"
         force["lengths"] = rng.choice(["ints", "none"])
+    elif r < 0.12:
+        o["edge_length_type"] = "float"
     if rng.random() < 0.06:
         o["suppress_edge_lengths"] = True
+    if rng.random() < 0.06:
+        o["is_parse_jplace_tokens"] = True
+        if rng.random() < 0.8:
+            force["jplace"] = True
+    if rng.random() < 0.08:
+        o["finish_node_fn"] = "mark-label"
+    if schema == "nexus" and rng.random() < 0.1:
+        o["store_ignored_blocks"] = True
     return o, force
+
+
+def finish_node_mark(nd):
+    """finish_node_fn handed to every route of a case: leaves a trace that the records compare (node label)"""
+    nd.label = "fin" if nd.label is None else "%s+fin" % (nd.label,)
 
 
 def real_options(o):
     o = dict(o)
-    if o.get("edge_length_type") == "int":
-        o["edge_length_type"] = int
+    if "edge_length_type" in o:
+        o["edge_length_type"] = {"int": int, "float": float}[o["edge_length_type"]]
+    if o.get("finish_node_fn") == "mark-label":
+        o["finish_node_fn"] = finish_node_mark
     return o
 
 
@@ -236,8 +341,46 @@ class Entry(dict):
     pass
 
 
+def offset_request(rng, blocks, allow_negative=True, styles=("c,t", "c,t", "c,-t", "c")):
+    """a random VALID offset request on a document whose collections hold blocks[c] trees:
+    (keyword arguments, first index, end index, description); indices address the flat list of all trees"""
+    starts = [sum(blocks[:c]) for c in range(len(blocks))]
+    c = rng.choice([c for c in range(len(blocks)) if blocks[c]])
+    cc = c - len(blocks) if (allow_negative and rng.random() < 0.4) else c
+    style = rng.choice(styles)
+    if style == "c,-t" and not allow_negative:
+        style = "c,t"
+    kw = {"collection_offset": cc}
+    lo = starts[c]
+    if style == "c,t":
+        t = rng.randrange(blocks[c])
+        kw["tree_offset"] = t
+        lo += t
+    elif style == "c,-t":
+        k = rng.randint(1, blocks[c])
+        kw["tree_offset"] = -k
+        lo += blocks[c] - k
+    desc = ",".join("%s=%d" % (k[0], v) for k, v in sorted(kw.items()))
+    return kw, lo, starts[c] + blocks[c], desc
+
+
+def refused_request(rng, blocks):
+    """an offset request that addresses NOTHING (collection beyond the last one, tree beyond the last one of its
+    collection, first tree of an empty collection): every offset route has to refuse it"""
+    cands = [{"collection_offset": len(blocks), "tree_offset": 0}, {"collection_offset": len(blocks)}]
+    for c in range(len(blocks)):
+        cands.append({"collection_offset": c, "tree_offset": blocks[c]})
+    kw = rng.choice(cands)
+    return kw, ",".join("%s=%d" % (k[0], v) for k, v in sorted(kw.items()))
+
+
 class Driver(object):
-    """reads one document through every route; only records - judge() decides afterwards."""
+    """reads one document through every route; only records - judge() decides afterwards.
+
+    A phase (tree routes / array routes / matrix routes) is first laid out as a list of steps in a DECLARED order -
+    all random choices are made while the plan is written - and then executed in a shuffled order, so that every
+    route gets its turn at being the first call on the (possibly still empty) shared namespace.  Judging only looks
+    at the declared order."""
 
     def __init__(self, ctx, doc, options, nsmode, tmpdir, rng):
         import dendropy
@@ -255,7 +398,20 @@ class Driver(object):
         with open(self.path, "w", newline="") as f:
             f.write(self.text)
         self._open = []
+        self._phase = 0
+        self._step = 0
+        self._sub = 0
+        self._calls = 0
+        self.budget_hit = False
         self.case_sensitive = bool(options.get("case_sensitive_taxon_labels"))
+        # keywords only the tree routes / only the matrix routes get (NEXUS: every reader entry point takes them)
+        self.tree_extra = {}
+        self.matrix_extra = {}
+        if self.schema == "nexus":
+            if rng.random() < 0.25:
+                self.tree_extra["exclude_chars"] = True
+            if rng.random() < 0.25:
+                self.matrix_extra["exclude_trees"] = True
         self.ns = None
         if nsmode != "fresh":
             self.ns = dendropy.TaxonNamespace(is_case_sensitive=self.case_sensitive)
@@ -263,6 +419,7 @@ class Driver(object):
                 for lab in ("zz unrelated 1", "zz unrelated 2", "zz unrelated 3", "zz unrelated 4", "zz unrelated 5",
                             "zz unrelated 6", "zz unrelated 7", "zz unrelated 8", "zz unrelated 9"):
                     self.ns.new_taxon(label=lab)
+        self.ns_state = "foreign-taxa" if nsmode in ("shared-prepopulated", "shared-unrelated") else "own-taxa-only"
 
     # -- sources ----------------------------------------------------------------------------------
     def source(self, form):
@@ -303,41 +460,58 @@ class Driver(object):
                 pass
         self._open = []
 
-    def kwargs(self, form=None, ns=True, **extra):
+    def kwargs(self, form=None, ns=True, kind="tree", **extra):
         kw = real_options(self.options)
         kw["schema"] = self.schema
         if form is not None:
             kw.update(self.source(form))
         if ns and self.ns is not None:
             kw["taxon_namespace"] = self.ns
+        kw.update(self.tree_extra if kind == "tree" else self.matrix_extra if kind == "matrix" else {})
         kw.update(extra)
         return kw
 
     # -- recording ----------------------------------------------------------------------------------
-    def record(self, route, source, mode, expect, fn):
+    def record(self, route, source, mode, expect, fn, own_ns=None, group=None):
         """fn() returns an iterable of trees (or matrices / array rows); everything it delivers is recorded,
         also when it raises half way."""
-        e = Entry(route=route, source=source, mode=mode, expect=expect, records=[], error=None, extra={})
+        e = Entry(route=route, source=source, mode=mode, expect=expect, records=[], error=None, extra={},
+                  seq=(self._phase, self._step, self._sub), call_no=self._calls, own_ns=own_ns, group=group, budget=False)
+        self._sub += 1
+        self._calls += 1
         got = []
-        before = list(self.ns) if self.ns is not None else None
+        watched = own_ns if own_ns is not None else self.ns
+        before = list(watched) if watched is not None else None
+        e["extra"]["ns_size_before"] = len(before) if before is not None else None
         try:
             with budget(STEP_LIMIT):
                 for item in fn(e):
                     got.append(item)
         except StepBudgetExceeded as x:
+            # a performance effect, never a verdict: the entry is not judged and the case is inconclusive
             e["error"] = ("StepBudgetExceeded", x.where, str(x))
+            e["budget"] = True
+            self.budget_hit = True
         except core.CaseTimeout:
             raise
         except Exception as x:
             fr = core.innermost_repo_frame(x)
             e["error"] = (type(x).__name__, fr[0] if fr else "<outside-library>", core.exc_brief(x))
         self.keep.append(got)
+        if e["error"] is not None and watched is not None and not watched.is_mutable:
+            # the readers lock the namespace while they work and unlock it when their symbol mapper is finalised; after an
+            # exception that can be late (reference cycles).  Not this property's business: unlock, so that the following
+            # routes are judged on their own merits
+            gc.collect()
+            if not watched.is_mutable:
+                watched.is_mutable = True
+                self.ctx.note("namespace-left-locked-by-a-failed-read:unlocked-by-harness")
         if before is not None:
-            # Taxon objects this call added to the shared namespace under a label that was already there
+            # Taxon objects this call added to the namespace under a label that was already there
             norm = (lambda x: x) if self.case_sensitive else (lambda x: x.lower() if isinstance(x, str) else x)
             known = set(id(t) for t in before)
             old_labels = set(norm(t.label) for t in before)
-            e["extra"]["recreated"] = [t.label for t in self.ns if id(t) not in known and norm(t.label) in old_labels]
+            e["extra"]["recreated"] = [t.label for t in watched if id(t) not in known and norm(t.label) in old_labels]
         for item in got:
             try:
                 if mode == "matrix":
@@ -351,6 +525,21 @@ class Driver(object):
         self.log.append(e)
         self.ctx.ev("route-call")
         return e
+
+    def run_steps(self, steps):
+        """execute the plan in a shuffled order; entries remember their declared position"""
+        self._phase += 1
+        order = list(range(len(steps)))
+        self.rng.shuffle(order)
+        try:
+            for i in order:
+                self._step, self._sub = i, 0
+                steps[i]()
+        finally:
+            self.close()
+
+    def entries(self, *modes):
+        return sorted((e for e in self.log if e["mode"] in modes), key=lambda e: e["seq"])
 
     # -- routes -------------------------------------------------------------------------------------
     def fresh_ns(self):
@@ -366,11 +555,17 @@ class Driver(object):
     def prepopulate(self):
         """shared-prepopulated: the shared namespace already holds the document's labels (learnt from a separate
         fresh read that is not part of the log) in another order, plus unrelated ones."""
+        labels = []
         try:
-            tl = self.dp.TreeList.get(**self.kwargs("data", ns=False, taxon_namespace=self.fresh_ns()))
-            labels = [t.label for t in tl.taxon_namespace]
-        except Exception:
-            labels = []
+            ds = self.dp.DataSet.get(**self.kwargs("data", ns=False, kind=None))
+            for ns in ds.taxon_namespaces:
+                labels.extend(t.label for t in ns)
+            self.ctx.ev("prepopulate-read-ok")
+        except core.CaseTimeout:
+            raise
+        except Exception as x:
+            # recorded: the mode then degenerates to 'two unrelated taxa' (the routes are judged all the same)
+            self.ctx.note("prepopulate-read-raised:%s:%s" % (self.schema, type(x).__name__))
         self.rng.shuffle(labels)
         self.ns.new_taxon(label="zz extra first")
         for lab in labels:
@@ -378,51 +573,82 @@ class Driver(object):
                 self.ns.new_taxon(label=lab)
         self.ns.new_taxon(label="zz extra last")
 
-    def run_tree_routes(self):
+    def plan_tree_routes(self):
         dp, rng = self.dp, self.rng
         blocks = self.doc["blocks"]
         total = sum(blocks)
-        if self.nsmode == "shared-prepopulated":
-            self.prepopulate()
+        steps = []
         forms = ["data", "string", "file", "stream", "path", "pathlib"]
+        yforms = ["file", "stream", "path", "pathlib"]
+        rec = self.record
+
+        def add(route, form, mode, expect, fn, **kw):
+            steps.append(lambda: rec(route, form, mode, expect, fn, **kw))
         # full routes ------------------------------------------------------------------
         for form in forms:
-            self.record("TreeList.get", form, "full", None,
-                        lambda e, form=form: dp.TreeList.get(**self.kwargs(form)))
-        yforms = ["file", "stream", "path", "pathlib"]
+            add("TreeList.get", form, "full", None, lambda e, form=form: dp.TreeList.get(**self.kwargs(form)))
         for form in yforms:
-            self.record("yield_from_files", form, "full", None,
-                        lambda e, form=form: dp.Tree.yield_from_files(
-                            files=[self.file_item(form)], **self.kwargs(None)))
+            add("yield_from_files", form, "full", None,
+                lambda e, form=form: dp.Tree.yield_from_files(files=[self.file_item(form)], **self.kwargs(None)))
         f2 = [rng.choice(yforms), rng.choice(yforms)]
-        self.record("yield_from_files[two-files]", "+".join(f2), "double", None,
-                    lambda e: dp.Tree.yield_from_files(
-                        files=[self.file_item(f2[0]), self.file_item(f2[1])],
-                        **self.kwargs(None)))
+        add("yield_from_files[two-files]", "+".join(f2), "double", None,
+            lambda e: dp.Tree.yield_from_files(files=[self.file_item(f2[0]), self.file_item(f2[1])], **self.kwargs(None)))
+
+        def ds_trees(e, ds):
+            e["extra"]["sizes"] = [len(tl) for tl in ds.tree_lists]
+            return [t for tl in ds.tree_lists for t in tl]
         for form in rng.sample(forms, 3):
-            def ds_get(e, form=form):
-                ds = dp.DataSet.get(**self.kwargs(form))
-                e["extra"]["sizes"] = [len(tl) for tl in ds.tree_lists]
-                return [t for tl in ds.tree_lists for t in tl]
-            self.record("DataSet.get", form, "full", None, ds_get)
-        # incremental reads: the second read goes into a list / data set that already holds the first
-        fa, fb = rng.sample(forms, 2)
-        tl = dp.TreeList(taxon_namespace=self.container_ns())
-        for k, form in enumerate((fa, fb)):
-            def tl_read(e, form=form):
-                n0 = len(tl)
-                e["extra"]["returned"] = tl.read(**self.kwargs(form, ns=False))
-                return list(tl)[n0:]
-            self.record("TreeList.read" if k == 0 else "TreeList.read[2nd]", form, "full", None, tl_read)
-        ds = dp.DataSet()
-        if self.ns is not None:
-            ds.attach_taxon_namespace(self.ns)
-        for k, form in enumerate(rng.sample(forms, 2)):
-            def ds_read(e, form=form):
-                n0 = len(ds.tree_lists)
-                e["extra"]["returned"] = ds.read(**self.kwargs(form, ns=False))
-                return [t for x in ds.tree_lists[n0:] for t in x]
-            self.record("DataSet.read" if k == 0 else "DataSet.read[2nd]", form, "full", None, ds_read)
+            add("DataSet.get", form, "full", None, lambda e, form=form: ds_trees(e, dp.DataSet.get(**self.kwargs(form))))
+        # "a full data set" read without its character data holds the same trees
+        form = rng.choice(forms)
+        add("DataSet.get[exclude_chars]", form, "full", None,
+            lambda e, form=form: ds_trees(e, dp.DataSet.get(**self.kwargs(form, exclude_chars=True))))
+        # incremental reads: the later reads go into a list / data set that already holds the earlier ones; the third
+        # one is an OFFSET read into the list that holds two full reads
+        fa, fb, fc = rng.sample(forms, 3)
+        third = offset_request(rng, blocks) if total else None
+
+        def tl_sequence():
+            tl = dp.TreeList(taxon_namespace=self.container_ns())
+            plan = [("TreeList.read", fa, "full", None, {}), ("TreeList.read[2nd]", fb, "full", None, {})]
+            if third is not None:
+                plan.append(("TreeList.read[3rd](c,t)", fc, "offset", ("slice", third[1], third[2], third[3]), third[0]))
+            for route, form, mode, expect, off in plan:
+                def tl_read(e, form=form, off=off):
+                    held = list(tl)
+                    e["extra"]["held"] = len(held)
+                    try:
+                        e["extra"]["returned"] = tl.read(**self.kwargs(form, ns=False, **off))
+                    finally:
+                        now = list(tl)
+                        e["extra"]["kept"] = len(now) >= len(held) and all(a is b for a, b in zip(held, now))
+                    return now[len(held):]
+                rec(route, form, mode, expect, tl_read)
+        steps.append(tl_sequence)
+        fd, fe = rng.sample(forms, 2)
+        second_excl = rng.random() < 0.3
+
+        def ds_sequence():
+            ds = dp.DataSet()
+            if self.ns is not None:
+                ds.attach_taxon_namespace(self.ns)
+            for k, form in enumerate((fd, fe)):
+                extra = {"exclude_chars": True} if (k == 1 and second_excl) else {}
+
+                def ds_read(e, form=form, extra=extra):
+                    held = list(ds.tree_lists)
+                    held_trees = [list(x) for x in held]
+                    try:
+                        e["extra"]["returned"] = ds.read(**self.kwargs(form, ns=False, **extra))
+                    finally:
+                        now = list(ds.tree_lists)
+                        e["extra"]["kept"] = (len(now) >= len(held) and all(a is b for a, b in zip(held, now))
+                                              and all(len(a) == len(b) and all(x is y for x, y in zip(a, b))
+                                                      for a, b in zip(held_trees, [list(x) for x in now])))
+                        e["extra"]["sizes"] = [len(x) for x in now[len(held):]]
+                    return [t for x in now[len(held):] for t in x]
+                rec("DataSet.read" if k == 0 else "DataSet.read[2nd]" + ("[exclude_chars]" if extra else ""), form, "full", None, ds_read)
+        steps.append(ds_sequence)
         # offset routes ---------------------------------------------------------------
         starts = [sum(blocks[:c]) for c in range(len(blocks))]
         pairs = [(c, t) for c in range(len(blocks)) for t in range(blocks[c])]
@@ -430,45 +656,124 @@ class Driver(object):
             pairs = rng.sample(pairs, 12)
         for c, t in pairs:
             form = rng.choice(forms)
-            self.record("Tree.get(c,t)", form, "offset", ("index", starts[c] + t, "c=%d,t=%d" % (c, t)),
-                        lambda e, c=c, t=t, form=form: [dp.Tree.get(**self.kwargs(form, collection_offset=c, tree_offset=t))])
+            add("Tree.get(c,t)", form, "offset", ("index", starts[c] + t, "c=%d,t=%d" % (c, t)),
+                lambda e, c=c, t=t, form=form: [dp.Tree.get(**self.kwargs(form, collection_offset=c, tree_offset=t))])
+        nonempty = [c for c in range(len(blocks)) if blocks[c]]
         if total:
             form = rng.choice(forms)
-            self.record("Tree.get()", form, "offset", ("index", 0, "defaults"),
-                        lambda e: [dp.Tree.get(**self.kwargs(form))])
-            c = rng.randrange(len(blocks))
-            self.record("Tree.get(c)", form, "offset", ("index", starts[c], "c=%d" % c),
-                        lambda e: [dp.Tree.get(**self.kwargs(form, collection_offset=c))])
-            t = rng.randrange(blocks[0])
-            self.record("Tree.get(t)", form, "offset", ("index", t, "t=%d" % t),
-                        lambda e: [dp.Tree.get(**self.kwargs(form, tree_offset=t))])
+            if blocks[0]:
+                add("Tree.get()", form, "offset", ("index", 0, "defaults"), lambda e, form=form: [dp.Tree.get(**self.kwargs(form))])
+                t = rng.randrange(blocks[0])
+                add("Tree.get(t)", form, "offset", ("index", t, "t=%d" % t),
+                    lambda e, form=form, t=t: [dp.Tree.get(**self.kwargs(form, tree_offset=t))])
+            else:
+                self.ctx.note("default-offset-requests-not-made:first-collection-empty")
+            c = rng.choice(nonempty)
+            add("Tree.get(c)", form, "offset", ("index", starts[c], "c=%d" % c),
+                lambda e, form=form, c=c: [dp.Tree.get(**self.kwargs(form, collection_offset=c))])
+            # negative offsets are not part of Tree.get's documentation: if it delivers, it has to be the tree that list
+            # indexing (and TreeList.get) selects; if it refuses, that is noted only
+            off, lo, hi, desc = offset_request(rng, blocks, styles=("c,t", "c,-t", "c,-t"))
+            if any(v < 0 for v in off.values()):
+                form = rng.choice(forms)
+                add("Tree.get(-c,-t)", form, "offset-lenient", ("index", lo, desc),
+                    lambda e, form=form, off=off: [dp.Tree.get(**self.kwargs(form, **off))])
         for c in range(len(blocks)):
             form = rng.choice(forms)
-            self.record("TreeList.get(c)", form, "offset", ("slice", starts[c], starts[c] + blocks[c], "c=%d" % c),
-                        lambda e, c=c, form=form: dp.TreeList.get(**self.kwargs(form, collection_offset=c)))
+            add("TreeList.get(c)", form, "offset", ("slice", starts[c], starts[c] + blocks[c], "c=%d" % c),
+                lambda e, c=c, form=form: dp.TreeList.get(**self.kwargs(form, collection_offset=c)))
+            if not blocks[c]:
+                continue
             t = rng.randrange(blocks[c])
-            self.record("TreeList.get(c,t)", form, "offset", ("slice", starts[c] + t, starts[c] + blocks[c], "c=%d,t=%d" % (c, t)),
-                        lambda e, c=c, t=t, form=form: dp.TreeList.get(**self.kwargs(form, collection_offset=c, tree_offset=t)))
+            add("TreeList.get(c,t)", form, "offset", ("slice", starts[c] + t, starts[c] + blocks[c], "c=%d,t=%d" % (c, t)),
+                lambda e, c=c, t=t, form=form: dp.TreeList.get(**self.kwargs(form, collection_offset=c, tree_offset=t)))
             k = rng.randint(1, blocks[c])
             cneg = c - len(blocks)
-            self.record("TreeList.get(-c,-t)", form, "offset",
-                        ("slice", starts[c] + blocks[c] - k, starts[c] + blocks[c], "c=%d,t=-%d" % (cneg, k)),
-                        lambda e, cneg=cneg, k=k, form=form: dp.TreeList.get(**self.kwargs(form, collection_offset=cneg, tree_offset=-k)))
+            add("TreeList.get(-c,-t)", form, "offset",
+                ("slice", starts[c] + blocks[c] - k, starts[c] + blocks[c], "c=%d,t=-%d" % (cneg, k)),
+                lambda e, cneg=cneg, k=k, form=form: dp.TreeList.get(**self.kwargs(form, collection_offset=cneg, tree_offset=-k)))
         if total:
-            t = rng.randrange(blocks[0])
             form = rng.choice(forms)
-            self.record("TreeList.get(t)", form, "offset", ("slice", t, blocks[0], "t=%d" % t),
-                        lambda e: dp.TreeList.get(**self.kwargs(form, tree_offset=t)))
-            c = rng.randrange(len(blocks))
-            t = rng.randrange(blocks[c])
-            tl2 = dp.TreeList(taxon_namespace=self.container_ns())
+            if blocks[0]:
+                t = rng.randrange(blocks[0])
+                add("TreeList.get(t)", form, "offset", ("slice", t, blocks[0], "t=%d" % t),
+                    lambda e, form=form, t=t: dp.TreeList.get(**self.kwargs(form, tree_offset=t)))
+            # an offset read into a brand-new list (negative offsets and collection-only requests included)
+            off, lo, hi, desc = offset_request(rng, blocks)
 
-            def tl_read_ct(e):
-                e["extra"]["returned"] = tl2.read(**self.kwargs(form, ns=False, collection_offset=c, tree_offset=t))
-                return list(tl2)
-            self.record("TreeList.read(c,t)", form, "offset", ("slice", starts[c] + t, starts[c] + blocks[c], "c=%d,t=%d" % (c, t)),
-                        tl_read_ct)
-        self.close()
+            def tl_read_ct(e, form=form, off=off):
+                tl2 = dp.TreeList(taxon_namespace=self.container_ns())
+                try:
+                    e["extra"]["returned"] = tl2.read(**self.kwargs(form, ns=False, **off))
+                finally:
+                    got = list(tl2)
+                return got
+            add("TreeList.read(c,t)", form, "offset", ("slice", lo, hi, desc), tl_read_ct)
+        # one request that addresses nothing, put to every offset route: all have to refuse
+        if blocks:
+            off, desc = refused_request(rng, blocks)
+            form = rng.choice(forms)
+            grp = "refused:" + desc
+            add("Tree.get(c,t)", form, "refuse", ("none", desc),
+                lambda e, form=form, off=off: [dp.Tree.get(**self.kwargs(form, **off))], group=grp)
+            add("TreeList.get(c,t)", form, "refuse", ("none", desc),
+                lambda e, form=form, off=off: dp.TreeList.get(**self.kwargs(form, **off)), group=grp)
+
+            def tl_read_refused(e, form=form, off=off):
+                tl3 = dp.TreeList(taxon_namespace=self.container_ns())
+                tl3.read(**self.kwargs(form, ns=False, **off))
+                return list(tl3)
+            add("TreeList.read(c,t)", form, "refuse", ("none", desc), tl_read_refused, group=grp)
+        # every route once on a namespace of its own that the CLIENT hands in still empty: the delivered trees have to
+        # live in exactly that object
+        if self.nsmode in ("fresh", "shared-empty") and rng.random() < 0.6:
+            def own(name, form, fn):
+                def step():
+                    ns1 = self.fresh_ns()
+                    rec(name, form, "full", None, lambda e: fn(ns1), own_ns=ns1)
+                steps.append(step)
+            probes = []
+            form = rng.choice(forms)
+            probes.append(("TreeList.get[own-ns]", form,
+                           lambda ns1, form=form: dp.TreeList.get(**self.kwargs(form, ns=False, taxon_namespace=ns1))))
+            form = rng.choice(forms)
+            probes.append(("DataSet.get[own-ns]", form,
+                           lambda ns1, form=form: [t for tl in dp.DataSet.get(**self.kwargs(form, ns=False, taxon_namespace=ns1)).tree_lists
+                                                   for t in tl]))
+            form = rng.choice(yforms)
+            probes.append(("yield_from_files[own-ns]", form,
+                           lambda ns1, form=form: dp.Tree.yield_from_files(files=[self.file_item(form)],
+                                                                           **self.kwargs(None, ns=False, taxon_namespace=ns1))))
+            form = rng.choice(forms)
+
+            def tl_read_own(ns1, form=form):
+                x = dp.TreeList(taxon_namespace=ns1)
+                x.read(**self.kwargs(form, ns=False))
+                return list(x)
+            probes.append(("TreeList.read[own-ns]", form, tl_read_own))
+            form = rng.choice(forms)
+
+            def ds_read_own(ns1, form=form):
+                x = dp.DataSet()
+                x.attach_taxon_namespace(ns1)
+                x.read(**self.kwargs(form, ns=False))
+                return [t for tl in x.tree_lists for t in tl]
+            probes.append(("DataSet.read[own-ns]", form, ds_read_own))
+            chosen = rng.sample(probes, 3)
+            for name, form, fn in chosen:
+                own(name, form, fn)
+            if total and blocks[0]:
+                form = rng.choice(forms)
+
+                def tree_get_own(form=form):
+                    ns1 = self.fresh_ns()
+                    rec("Tree.get()[own-ns]", form, "offset", ("index", 0, "defaults"),
+                        lambda e: [dp.Tree.get(**self.kwargs(form, ns=False, taxon_namespace=ns1))], own_ns=ns1)
+                steps.append(tree_get_own)
+        return steps
+
+    def run_tree_routes(self):
+        self.run_steps(self.plan_tree_routes())
 
     def array_rows(self, ta):
         ns = ta.taxon_namespace
@@ -479,24 +784,36 @@ class Driver(object):
         for i in range(len(ta._tree_split_bitmasks)):
             rows.append({"splits": list(ta._tree_split_bitmasks[i]), "lengths": list(ta._tree_edge_lengths[i]),
                          "weight": ta._tree_weights[i], "leafset": ta._tree_leafset_bitmasks[i], "bits": bit,
-                         "rooted": ta._is_rooted_trees})
+                         "rooted": ta._is_rooted_trees, "_ns": ns})
         return rows
 
     def run_array_routes(self, uniform_rooting):
         dp, rng = self.dp, self.rng
-        total = sum(self.doc["blocks"])
+        blocks = self.doc["blocks"]
+        total = sum(blocks)
         forms = ["data", "file", "stream", "path"]
         use_w = rng.random() < 0.7
-        for form in rng.sample(forms, 2):
-            def ta_read(e, form=form):
-                ta = dp.TreeArray(taxon_namespace=self.container_ns(), use_tree_weights=use_w)
-                try:
-                    e["extra"]["returned"] = ta.read(**self.kwargs(form, ns=False))
-                finally:
-                    e["extra"]["rows"] = self.array_rows(ta)
-                return e["extra"]["rows"]
-            self.record("TreeArray.read", form, "array", {"use_weights": use_w, "skip": 0, "files": 1}, ta_read)
-        skip = rng.randint(0, max(0, min(self.doc["blocks"][0] if self.doc["blocks"] else 0, total) - 1)) if total else 0
+        steps = []
+        fa, fb = rng.sample(forms, 2)
+
+        def ta_sequence():
+            # the second read goes into the array that already holds the first
+            ta = dp.TreeArray(taxon_namespace=self.container_ns(), use_tree_weights=use_w)
+            failed = False
+            for k, form in enumerate((fa, fb)):
+                def ta_read(e, form=form, failed=failed):
+                    e["extra"]["prior_error"] = failed
+                    try:
+                        e["extra"]["returned"] = ta.read(**self.kwargs(form, ns=False))
+                    finally:
+                        e["extra"]["rows"] = self.array_rows(ta)
+                    return e["extra"]["rows"]
+                x = self.record("TreeArray.read" if k == 0 else "TreeArray.read[2nd]", form, "array",
+                                {"use_weights": use_w, "skip": 0, "files": k + 1}, ta_read)
+                failed = failed or x["error"] is not None
+        steps.append(ta_sequence)
+        first = blocks[0] if blocks else 0
+        skip = rng.randint(0, max(0, min(first, total) - 1)) if total else 0
         yf = [rng.choice(["file", "stream", "path", "pathlib"]) for _ in range(rng.choice([1, 2]))]
 
         def ta_files(e):
@@ -509,8 +826,24 @@ class Driver(object):
             finally:
                 e["extra"]["rows"] = self.array_rows(ta)
             return e["extra"]["rows"]
-        self.record("TreeArray.read_from_files", "+".join(yf), "array", {"use_weights": use_w, "skip": skip, "files": len(yf)}, ta_files)
-        self.close()
+        steps.append(lambda: self.record("TreeArray.read_from_files", "+".join(yf), "array",
+                                         {"use_weights": use_w, "skip": skip, "files": len(yf)}, ta_files))
+        if self.nsmode in ("fresh", "shared-empty") and rng.random() < 0.4:
+            form = rng.choice(forms)
+
+            def ta_own():
+                ns1 = self.fresh_ns()
+
+                def ta_read(e):
+                    ta = dp.TreeArray(taxon_namespace=ns1, use_tree_weights=use_w)
+                    try:
+                        ta.read(**self.kwargs(form, ns=False))
+                    finally:
+                        e["extra"]["rows"] = self.array_rows(ta)
+                    return e["extra"]["rows"]
+                self.record("TreeArray.read[own-ns]", form, "array", {"use_weights": use_w, "skip": 0, "files": 1}, ta_read, own_ns=ns1)
+            steps.append(ta_own)
+        self.run_steps(steps)
 
     MATRIX_CLASS = {"dna": "DnaCharacterMatrix", "rna": "RnaCharacterMatrix", "protein": "ProteinCharacterMatrix",
                     "standard": "StandardCharacterMatrix", "continuous": "ContinuousCharacterMatrix",
@@ -520,53 +853,134 @@ class Driver(object):
     def run_matrix_routes(self):
         dp, rng = self.dp, self.rng
         forms = ["data", "string", "file", "stream", "path", "pathlib"]
-        for form in rng.sample(forms, 3):
-            def ds_get(e, form=form):
-                ds = dp.DataSet.get(**self.kwargs(form))
-                return list(ds.char_matrices)
-            self.record("DataSet.get.char_matrices", form, "matrix", None, ds_get)
-        ds = dp.DataSet()
-        if self.ns is not None:
-            ds.attach_taxon_namespace(self.ns)
+        steps = []
+        rec = self.record
 
-        def ds_read(e):
-            ds.read(**self.kwargs(rng.choice(forms), ns=False))
-            return list(ds.char_matrices)
-        self.record("DataSet.read.char_matrices", "mixed", "matrix", None, ds_read)
+        def add(route, form, expect, fn, **kw):
+            steps.append(lambda: rec(route, form, "matrix", expect, fn, **kw))
+        for form in rng.sample(forms, 3):
+            add("DataSet.get.char_matrices", form, None,
+                lambda e, form=form: list(dp.DataSet.get(**self.kwargs(form, kind=None)).char_matrices))
+        # "a full data set" read without its trees holds the same matrices
+        form = rng.choice(forms)
+        add("DataSet.get[exclude_trees].char_matrices", form, None,
+            lambda e, form=form: list(dp.DataSet.get(**self.kwargs(form, kind=None, exclude_trees=True)).char_matrices))
+        fa, fb = rng.sample(forms, 2)
+        second_excl = rng.random() < 0.4
+
+        def ds_sequence():
+            ds = dp.DataSet()
+            if self.ns is not None:
+                ds.attach_taxon_namespace(self.ns)
+            for k, form in enumerate((fa, fb)):
+                extra = {"exclude_trees": True} if (k == 1 and second_excl) else {}
+
+                def ds_read(e, form=form, extra=extra):
+                    held = list(ds.char_matrices)
+                    try:
+                        ds.read(**self.kwargs(form, ns=False, kind=None, **extra))
+                    finally:
+                        now = list(ds.char_matrices)
+                        e["extra"]["kept"] = len(now) >= len(held) and all(a is b for a, b in zip(held, now))
+                    return now[len(held):]
+                rec("DataSet.read.char_matrices" if k == 0 else "DataSet.read[2nd]%s.char_matrices" % ("[exclude_trees]" if extra else ""),
+                    form, "matrix", None, ds_read)
+        steps.append(ds_sequence)
         for i, dt in enumerate(self.doc["matrices"]):
             cls = getattr(dp, self.MATRIX_CLASS[dt])
             for form in rng.sample(forms, 3):
-                self.record("CharacterMatrix.get(i)", form, "matrix", ("index", i, "matrix_offset=%d" % i),
-                            lambda e, i=i, form=form, cls=cls: [cls.get(**self.kwargs(form, matrix_offset=i))])
+                add("CharacterMatrix.get(i)", form, ("index", i, "matrix_offset=%d" % i),
+                    lambda e, i=i, form=form, cls=cls: [cls.get(**self.kwargs(form, kind="matrix", matrix_offset=i))])
         if self.doc["matrices"]:
-            cls = getattr(dp, self.MATRIX_CLASS[self.doc["matrices"][0]])
+            cls0 = getattr(dp, self.MATRIX_CLASS[self.doc["matrices"][0]])
             form = rng.choice(forms)
-            self.record("CharacterMatrix.get()", form, "matrix", ("index", 0, "default offset"),
-                        lambda e: [cls.get(**self.kwargs(form))])
-        self.close()
+            add("CharacterMatrix.get()", form, ("index", 0, "default offset"),
+                lambda e, form=form: [cls0.get(**self.kwargs(form, kind="matrix"))])
+            if self.nsmode in ("fresh", "shared-empty") and rng.random() < 0.6:
+                i = rng.randrange(len(self.doc["matrices"]))
+                cls1 = getattr(dp, self.MATRIX_CLASS[self.doc["matrices"][i]])
+                form = rng.choice(forms)
+
+                def cm_own(i=i, cls1=cls1, form=form):
+                    ns1 = self.fresh_ns()
+                    rec("CharacterMatrix.get(i)[own-ns]", form, "matrix", ("index", i, "matrix_offset=%d" % i),
+                        lambda e: [cls1.get(**self.kwargs(form, ns=False, kind="matrix", matrix_offset=i, taxon_namespace=ns1))],
+                        own_ns=ns1)
+                steps.append(cm_own)
+                form = rng.choice(forms)
+
+                def ds_own(form=form):
+                    ns1 = self.fresh_ns()
+                    rec("DataSet.get.char_matrices[own-ns]", form, "matrix", None,
+                        lambda e: list(dp.DataSet.get(**self.kwargs(form, ns=False, kind=None, taxon_namespace=ns1)).char_matrices),
+                        own_ns=ns1)
+                steps.append(ds_own)
+        self.run_steps(steps)
 
 
 # ---------------------------------------------------------------------------------------------------
 # offline judgement of a log
 def wit(drv, entry, **more):
     d = {"schema": drv.schema, "options": drv.options, "namespace": drv.nsmode, "route": entry["route"],
-         "source": entry["source"], "document": drv.text if len(drv.text) < 2500 else drv.text[:2500] + "...",
+         "source": entry["source"], "call_no": entry.get("call_no"),
+         "namespace_size_before_call": entry["extra"].get("ns_size_before"),
+         "route_only_keywords": dict(drv.tree_extra, **drv.matrix_extra),
+         "document": drv.text if len(drv.text) < 2500 else drv.text[:2500] + "...",
          "features": drv.doc.get("features")}
     d.update(more)
     return d
 
 
 def family(route):
-    """Tree.get(c,t) / Tree.get() -> Tree.get ; TreeList.read[2nd] -> TreeList.read"""
+    """Tree.get(c,t) / Tree.get() -> Tree.get ; TreeList.read[2nd] -> TreeList.read ;
+    DataSet.get[exclude_chars] -> DataSet.get[exclude_chars] (an option variant is a family of its own)"""
+    base = route
     for ch in "([":
-        k = route.find(ch)
+        k = base.find(ch)
         if k > 0:
-            route = route[:k]
-    return route
+            base = base[:k]
+    for variant in ("[exclude_chars]", "[exclude_trees]"):
+        if variant in route:
+            base += variant
+    if route.endswith(".char_matrices") or ".char_matrices[" in route:
+        if not base.endswith(".char_matrices"):
+            base += ".char_matrices"
+    return base
 
 
 def err_disc(err):
     return "%s|%s" % (err[0], err[1])
+
+
+# options that switch on reader code outside the tree / matrix statements: every violation key of a case that runs
+# under one of them carries '|opt:<option>' (see KeyedCtx)
+KEY_OPTIONS = ("store_ignored_blocks",)
+
+
+class KeyedCtx(object):
+    """the run context with a discriminator appended to every violation key"""
+
+    def __init__(self, ctx, suffix):
+        self._ctx = ctx
+        self._suffix = suffix
+
+    def __getattr__(self, name):
+        return getattr(self._ctx, name)
+
+    def violation(self, key, what, detail=None):
+        self._ctx.violation(key + self._suffix, what, detail)
+
+
+def raised_key(drv, e):
+    """raised-where-others-deliver|<ExcClass>|<innermost function>|<schema>|<route family>|<namespace state>[|several-taxa-blocks]
+    namespace state: 'foreign-taxa' = the namespace handed to the route held taxa that are not the document's before
+    the case started (modes shared-prepopulated / shared-unrelated); 'own-taxa-only' = the route made its own
+    namespace or was handed one that was empty / held only taxa earlier reads of this same document put there."""
+    state = "own-taxa-only" if e.get("own_ns") is not None else drv.ns_state
+    key = "raised-where-others-deliver|%s|%s|%s|%s" % (err_disc(e["error"]), drv.schema, family(e["route"]), state)
+    if drv.doc.get("taxa_blocks", 0) > 1:
+        key += "|several-taxa-blocks"
+    return key
 
 
 def compare_sequences(ctx, drv, entry, got, want, ref_entry, keybase, shared, what):
@@ -578,6 +992,7 @@ def compare_sequences(ctx, drv, entry, got, want, ref_entry, keybase, shared, wh
         return False
     reported = set()
     equal = True
+    own = entry.get("own_ns")
     for i, (g, w) in enumerate(zip(got, want)):
         ctx.ev("tree-compared")
         if "_broken" in g or "_broken" in w:
@@ -600,8 +1015,24 @@ def compare_sequences(ctx, drv, entry, got, want, ref_entry, keybase, shared, wh
                               reference=ref_entry["route"] + "/" + ref_entry["source"]))
         if g["shape"] != w["shape"]:
             return False
-        if shared:
+        if own is not None:
+            # a namespace the client handed in (empty): the tree has to live in that very object, with taxa of that object
+            ctx.ev("client-namespace-judged")
+            members = set(id(t) for t in own)
+            if g["_ns"] is not own:
+                ctx.violation("%s|tree-not-attached-to-client-namespace|empty-at-call|%s" % (keybase, drv.schema),
+                              "%s: tree %d references another TaxonNamespace than the (empty) one the client passed in" % (what, i),
+                              wit(drv, entry, tree_index=i))
+                return False
+            if any(t is not None and id(t) not in members for t in g["_taxa"]):
+                ctx.violation("%s|taxa-not-in-client-namespace|empty-at-call|%s" % (keybase, drv.schema),
+                              "%s: tree %d carries Taxon objects that are not members of the namespace the client passed in" % (what, i),
+                              wit(drv, entry, tree_index=i))
+                return False
+        elif shared:
             ctx.ev("taxon-identity-judged")
+            if entry["extra"].get("ns_size_before") == 0:
+                ctx.ev("first-call-on-empty-shared-namespace-judged:%s" % family(entry["route"]))
             if g["_ns"] is not drv.ns:
                 ctx.violation("%s|tree-not-attached-to-shared-namespace|%s" % (keybase, drv.schema),
                               "%s: tree %d references another TaxonNamespace than the one passed in" % (what, i),
@@ -620,9 +1051,41 @@ def compare_sequences(ctx, drv, entry, got, want, ref_entry, keybase, shared, wh
     return equal
 
 
+def judge_recreated(ctx, drv, log, shared):
+    """a call that re-creates taxa its namespace already holds is the culprit; after it "the same taxon" is no longer
+    well defined, so identity is not compared for this document"""
+    for e in log:
+        if e["own_ns"] is None and drv.ns is None:
+            continue
+        ctx.ev("namespace-growth-judged")
+        if e["extra"].get("recreated"):
+            ctx.violation("%s|re-created-existing-taxa|%s" % (family(e["route"]), drv.schema),
+                          "%s(%s) added new Taxon objects to the namespace it was given for labels it already held: %s"
+                          % (e["route"], e["source"], e["extra"]["recreated"][:6]),
+                          wit(drv, e, namespace_labels=[t.label for t in (e["own_ns"] if e["own_ns"] is not None else drv.ns)][:40]))
+            if e["own_ns"] is None:
+                shared = False
+    return shared
+
+
+def judge_kept(ctx, drv, e):
+    """incremental reads: what the container held before the read is still there, same objects, same order"""
+    if "kept" not in e["extra"]:
+        return
+    ctx.ev("earlier-content-judged")
+    if e["extra"]["kept"] is False:
+        ctx.violation("%s|earlier-content-changed-by-later-read|%s" % (family(e["route"]), drv.schema),
+                      "%s(%s): the trees / matrices the container held before this read are no longer its first elements"
+                      % (e["route"], e["source"]), wit(drv, e, held_before=e["extra"].get("held"), expect=e["expect"]))
+
+
 def judge_trees(ctx, drv):
-    log = [e for e in drv.log if e["mode"] in ("full", "double", "offset")]
-    fulls = [e for e in log if e["mode"] == "full"]
+    log = drv.entries("full", "double", "offset", "offset-lenient", "refuse")
+    for e in log:
+        if e["budget"]:
+            ctx.note("route-hit-step-budget:not-judged:%s" % family(e["route"]))
+    log = [e for e in log if not e["budget"]]
+    fulls = [e for e in log if e["mode"] == "full" and e["own_ns"] is None]
     ref_entry = None
     for e in fulls:
         if e["error"] is None:
@@ -630,14 +1093,14 @@ def judge_trees(ctx, drv):
             break
     shared = drv.ns is not None
     if ref_entry is None:
-        delivering = [e for e in log if e["error"] is None and e["records"]]
+        delivering = [e for e in log if e["error"] is None and e["records"] and e["mode"] != "refuse"]
         if not delivering:
             ctx.ev("all-routes-raised")
             ctx.note("all-routes-raised:%s:%s" % (drv.schema, fulls[0]["error"][0] if fulls else "?"))
             return None
-        ref_entry = None
     want = ref_entry["records"] if ref_entry is not None else None
-    total = sum(drv.doc["blocks"])
+    blocks = drv.doc["blocks"]
+    total = sum(blocks)
     structure_known = True
     if ref_entry is not None and len(want) != total:
         # the template's idea of the block structure is not what the readers see (e.g. a label-only statement without
@@ -645,32 +1108,31 @@ def judge_trees(ctx, drv):
         ctx.note("reference-count-differs-from-template:offset-routes-not-judged")
         structure_known = False
     primary = {}
-    if shared:
-        # a call that re-creates taxa the shared namespace already holds is the culprit; after it "the same taxon" is
-        # no longer well defined, so identity is not compared for this document
-        for e in log:
-            ctx.ev("namespace-growth-judged")
-            if e["extra"].get("recreated"):
-                ctx.violation("%s|re-created-existing-taxa|%s" % (family(e["route"]), drv.schema),
-                              "%s(%s) added new Taxon objects to the shared namespace for labels it already held: %s"
-                              % (e["route"], e["source"], e["extra"]["recreated"][:6]),
-                              wit(drv, e, namespace_labels=[t.label for t in drv.ns][:40]))
-                shared = False
-        if not shared:
-            ctx.note("taxon-identity-not-judged:shared-namespace-holds-re-created-taxa")
+    shared = judge_recreated(ctx, drv, log, shared)
+    if drv.ns is not None and not shared:
+        ctx.note("taxon-identity-not-judged:shared-namespace-holds-re-created-taxa")
+    refused = {}
     for e in log:
         ctx.ev("route-entry-judged")
         route = e["route"]
-        if e["error"] is not None and e["mode"] == "offset" and not structure_known:
+        judge_kept(ctx, drv, e)
+        if e["mode"] == "refuse":
+            refused.setdefault(e["group"], []).append(e)
+            continue
+        if e["error"] is not None and e["mode"] in ("offset", "offset-lenient") and not structure_known:
             continue
         if e["error"] is not None:
+            if e["mode"] == "offset-lenient" and e["error"][0] in ("IndexError", "ValueError", "TypeError"):
+                ctx.note("undocumented-negative-offset-refused:%s" % family(route))
+                continue
             # a route raises: violation iff some other route delivered
-            others = ref_entry if ref_entry is not None else next((x for x in log if x["error"] is None and x["records"]), None)
+            others = ref_entry if ref_entry is not None else next(
+                (x for x in log if x["error"] is None and x["records"] and x["mode"] != "refuse"), None)
             if others is not None and others is not e:
-                ctx.violation("raised-where-others-deliver|%s|%s" % (err_disc(e["error"]), drv.schema),
+                ctx.violation(raised_key(drv, e),
                               "%s(%s) raised %s although %s delivered %d trees from the same text and options"
                               % (route, e["source"], e["error"][2], others["route"], len(others["records"])),
-                              wit(drv, e, delivered_before_raising=len(e["records"])))
+                              wit(drv, e, delivered_before_raising=len(e["records"]), expect=e["expect"]))
             continue
         if ref_entry is None or e is ref_entry:
             primary.setdefault(route, e)
@@ -685,6 +1147,17 @@ def judge_trees(ctx, drv):
             x = e["expect"]
             exp = [want[x[1]]] if x[0] == "index" else want[x[1]:x[2]]
             ctx.ev("offset-pair-judged")
+            if any(ch == "-" for ch in x[-1]):
+                ctx.ev("negative-offset-judged")
+            if "held" in e["extra"] and e["extra"]["held"]:
+                ctx.ev("offset-read-into-filled-list-judged")
+        if "sizes" in e["extra"] and structure_known:
+            # the data set's collections are the collections the offset routes address
+            ctx.ev("collection-sizes-judged")
+            if e["extra"]["sizes"] != list(blocks):
+                ctx.violation("%s|collection-sizes|%s" % (family(route), drv.schema),
+                              "%s holds tree lists of sizes %s; collection_offset addresses collections of sizes %s"
+                              % (route, e["extra"]["sizes"], list(blocks)), wit(drv, e))
         first = primary.get(route)
         if first is not None and e["mode"] == "full":
             # same route, other kind of source: judged against the route's first entry
@@ -702,49 +1175,84 @@ def judge_trees(ctx, drv):
             continue
         what = "%s(%s)%s" % (route, e["source"], " " + e["expect"][-1] if e["expect"] else "")
         compare_sequences(ctx, drv, e, e["records"], exp, ref_entry, family(route), shared, what)
-        if e["mode"] == "full":
+        if e["mode"] == "full" and e["own_ns"] is None:
             primary.setdefault(route, e)
         if "returned" in e["extra"] and isinstance(e["extra"]["returned"], int) and e["extra"]["returned"] != len(e["records"]):
             ctx.note("read-return-value-differs-from-trees-added")
+    # requests that address nothing: refusing is the documented behaviour (IndexError); judged is the AGREEMENT of the
+    # offset routes - one of them delivering trees where the others refuse is a divergence
+    if structure_known and ref_entry is not None:
+        for grp, es in sorted(refused.items()):
+            ctx.ev("refused-request-judged")
+            deliver = [x for x in es if x["error"] is None]
+            refuse = [x for x in es if x["error"] is not None]
+            if deliver and refuse:
+                for x in deliver:
+                    ctx.violation("%s|delivers-on-request-other-offset-routes-refuse|%s" % (family(x["route"]), drv.schema),
+                                  "%s(%s) %s delivered %d trees; %s raised %s on the same request"
+                                  % (x["route"], x["source"], x["expect"][-1], len(x["records"]), refuse[0]["route"], refuse[0]["error"][2]),
+                                  wit(drv, x, request=x["expect"][-1]))
+            elif deliver:
+                ctx.note("request-beyond-template-structure-delivered-by-all-offset-routes")
+            else:
+                kinds = set(x["error"][0] for x in refuse)
+                if len(kinds) > 1:
+                    ctx.note("refused-request:exception-classes-differ:%s" % "/".join(sorted(kinds)))
     return ref_entry
 
 
 def judge_arrays(ctx, drv, ref_entry):
     want = ref_entry["records"]
-    for e in drv.log:
-        if e["mode"] != "array":
+    for e in drv.entries("array"):
+        if e["budget"]:
+            ctx.note("route-hit-step-budget:not-judged:%s" % family(e["route"]))
             continue
         ctx.ev("route-entry-judged")
+        if e["extra"].get("prior_error"):
+            ctx.note("treearray-second-read-not-judged:first-read-raised")
+            continue
         cfg = e["expect"]
         exp = []
-        n0 = 0
         for _ in range(cfg["files"]):
             exp.extend(want[cfg["skip"]:])
         if e["error"] is not None:
             if all(U.usable_for_array(r) for r in exp):
-                ctx.violation("raised-where-others-deliver|%s|%s" % (err_disc(e["error"]), drv.schema),
+                ctx.violation(raised_key(drv, e),
                               "%s raised %s although %s delivered %d trees" % (e["route"], e["error"][2], ref_entry["route"], len(want)),
                               wit(drv, e, config=cfg))
             else:
                 ctx.note("treearray-raised-on-degenerate-trees-not-judged:%s" % e["error"][0])
             continue
         rows = e["records"]
+        fam = family(e["route"])
         if len(rows) != len(exp):
-            ctx.violation("%s|count|%s" % (e["route"], drv.schema),
-                          "%s holds %d trees, expected %d (tree_offset=%d, %d file(s))" % (e["route"], len(rows), len(exp), cfg["skip"], cfg["files"]),
+            ctx.violation("%s|count|%s" % (fam, drv.schema),
+                          "%s holds %d trees, expected %d (tree_offset=%d, %d read(s)/file(s))" % (e["route"], len(rows), len(exp), cfg["skip"], cfg["files"]),
                           wit(drv, e, config=cfg))
             continue
+        if e["own_ns"] is not None and rows:
+            ctx.ev("client-namespace-judged")
+            if rows[0]["_ns"] is not e["own_ns"]:
+                ctx.violation("%s|array-not-attached-to-client-namespace|empty-at-call|%s" % (fam, drv.schema),
+                              "%s: the array references another TaxonNamespace than the one the client passed in" % e["route"], wit(drv, e))
+                continue
         for i, (row, w) in enumerate(zip(rows, exp)):
             if not U.usable_for_array(w):
                 ctx.note("treearray-tree-not-judged:unary/duplicate/<3-leaves")
                 continue
             ctx.ev("treearray-tree-judged")
+            if cfg["files"] > 1 and i >= len(exp) // cfg["files"]:
+                ctx.ev("treearray-later-read-tree-judged")
             rooted = bool(w["rooting"])
+            if bool(row["rooted"]) != rooted:
+                ctx.violation("%s|rooting|%s" % (fam, drv.schema), "%s: the array says is_rooted_trees=%r, the trees delivered by %s have is_rooted=%r"
+                              % (e["route"], row["rooted"], ref_entry["route"], w["rooting"]), wit(drv, e, tree_index=i, config=cfg))
+                break
             wexp = 1.0
             if cfg["use_weights"] and w["_weight"] is not None:
                 wexp = float(w["_weight"])
             if not U.close(row["weight"], wexp):
-                ctx.violation("%s|weight|%s" % (e["route"], drv.schema), "%s: tree %d has weight %r, reference tree has %s (use_tree_weights=%s)"
+                ctx.violation("%s|weight|%s" % (fam, drv.schema), "%s: tree %d has weight %r, reference tree has %s (use_tree_weights=%s)"
                               % (e["route"], i, row["weight"], w["weight"], cfg["use_weights"]), wit(drv, e, tree_index=i, config=cfg))
                 break
             sl = U.expected_split_lengths(w, rooted)
@@ -758,13 +1266,18 @@ def judge_arrays(ctx, drv, ref_entry):
                         out.add(row["bits"].get(b, "<bit %d>" % b))
                     b <<= 1
                 return frozenset(out)
+            if labels(row["leafset"]) != full:
+                ctx.violation("%s|leafset|%s" % (fam, drv.schema), "%s: tree %d has another leaf set than the tree delivered by %s"
+                              % (e["route"], i, ref_entry["route"]),
+                              wit(drv, e, tree_index=i, config=cfg, got=sorted(map(str, labels(row["leafset"]))), want=sorted(map(str, full))))
+                break
             got = {}
             for m, ln in zip(row["splits"], row["lengths"] or [None] * len(row["splits"])):
                 side = labels(m)
                 k = side if rooted else ref.usplit(side & full if side else side, full)
                 got[k] = (got.get(k, 0) + ln) if ln is not None else got.get(k, 0)
             if set(got) != set(sl):
-                ctx.violation("%s|split-set|%s" % (e["route"], drv.schema), "%s: tree %d has another split set than the tree delivered by %s"
+                ctx.violation("%s|split-set|%s" % (fam, drv.schema), "%s: tree %d has another split set than the tree delivered by %s"
                               % (e["route"], i, ref_entry["route"]),
                               wit(drv, e, tree_index=i, config=cfg, tree=ref.to_newick(w["_spec"]),
                                   extra=sorted(sorted(map(sorted, k)) if not rooted else sorted(k) for k in set(got) - set(sl))[:5],
@@ -773,7 +1286,7 @@ def judge_arrays(ctx, drv, ref_entry):
             if ref.has_all_lengths(w["_spec"]) and row["lengths"]:
                 bad = [k for k in sl if not U.close(sl[k], got[k])]
                 if bad:
-                    ctx.violation("%s|split-lengths|%s" % (e["route"], drv.schema), "%s: tree %d edge lengths differ from the tree delivered by %s"
+                    ctx.violation("%s|split-lengths|%s" % (fam, drv.schema), "%s: tree %d edge lengths differ from the tree delivered by %s"
                                   % (e["route"], i, ref_entry["route"]),
                                   wit(drv, e, tree_index=i, config=cfg, tree=ref.to_newick(w["_spec"]),
                                       split=sorted(map(sorted, bad[0])) if not rooted else sorted(bad[0]), got=got[bad[0]], want=sl[bad[0]]))
@@ -781,38 +1294,53 @@ def judge_arrays(ctx, drv, ref_entry):
 
 
 def judge_matrices(ctx, drv):
-    log = [e for e in drv.log if e["mode"] == "matrix"]
-    ref_entry = next((e for e in log if e["route"].startswith("DataSet.get") and e["error"] is None), None)
+    log = drv.entries("matrix")
+    for e in log:
+        if e["budget"]:
+            ctx.note("route-hit-step-budget:not-judged:%s" % family(e["route"]))
+    log = [e for e in log if not e["budget"]]
+    # "the matrix found in the data set": the first data-set read that delivered; a data set read WITHOUT its trees is
+    # the reference when the full one cannot be read (it also parses the TREES blocks, which a matrix read skips)
+    ref_entry = next((e for e in log if e["route"] == "DataSet.get.char_matrices" and e["error"] is None), None)
     if ref_entry is None:
-        # the data set could not be read at all (it also parses the TREES blocks, which a matrix read skips):
-        # there is no "matrix found in the data set" to compare with
-        ctx.ev("all-routes-raised")
-        ctx.note("matrix-not-judged:DataSet.get-raised:%s:%s" % (drv.schema, log[0]["error"][0] if log and log[0]["error"] else "?"))
+        ref_entry = next((e for e in log if e["route"] == "DataSet.get[exclude_trees].char_matrices" and e["error"] is None), None)
+        if ref_entry is not None:
+            ctx.note("matrix-reference-is-the-data-set-read-without-trees:full-data-set-read-raised")
+    if ref_entry is None:
+        delivering = [e for e in log if e["error"] is None and e["records"]]
+        if not delivering:
+            ctx.ev("all-routes-raised")
+            ctx.note("matrix-all-routes-raised:%s:%s" % (drv.schema, log[0]["error"][0] if log and log[0]["error"] else "?"))
+            return
+        # no data-set route can read what a matrix route reads, not even the one that skips the trees
+        for e in log:
+            if e["error"] is not None and e["route"].startswith("DataSet.get[exclude_trees]"):
+                ctx.violation(raised_key(drv, e),
+                              "%s(%s) raised %s although %s delivered a matrix from the same text and options"
+                              % (e["route"], e["source"], e["error"][2], delivering[0]["route"]), wit(drv, e))
+        ctx.note("matrix-not-judged:no-data-set-route-delivered:%s" % drv.schema)
         return
     want = ref_entry["records"]
     shared = drv.ns is not None
-    if shared:
-        for e in log:
-            ctx.ev("namespace-growth-judged")
-            if e["extra"].get("recreated"):
-                ctx.violation("%s|re-created-existing-taxa|%s" % (family(e["route"]), drv.schema),
-                              "%s(%s) added new Taxon objects to the shared namespace for labels it already held: %s"
-                              % (e["route"], e["source"], e["extra"]["recreated"][:6]),
-                              wit(drv, e, namespace_labels=[t.label for t in drv.ns][:40]))
-                shared = False
-        if any(e["extra"].get("recreated") for e in drv.log):
-            shared = False
-    if ref_entry["route"].startswith("DataSet") and len(want) != len(drv.doc["matrices"]):
-        ctx.violation("reference|matrix-count-differs-from-document|%s" % drv.schema,
-                      "%s delivered %d matrices from a document written with %d" % (ref_entry["route"], len(want), len(drv.doc["matrices"])),
-                      wit(drv, ref_entry))
-        return
+    shared = judge_recreated(ctx, drv, log, shared)
+    if shared and any(e["extra"].get("recreated") for e in drv.log if e["own_ns"] is None):
+        shared = False
+    if len(want) != len(drv.doc["matrices"]):
+        # what the document "should" hold is not the harness's business: only agreement of the routes is judged
+        ctx.note("reference-matrix-count-differs-from-template:%s" % drv.schema)
+    full_failed = ref_entry["route"] != "DataSet.get.char_matrices"
     for e in log:
         if e is ref_entry:
             continue
         ctx.ev("route-entry-judged")
+        judge_kept(ctx, drv, e)
+        fam = family(e["route"])
         if e["error"] is not None:
-            ctx.violation("raised-where-others-deliver|%s|%s" % (err_disc(e["error"]), drv.schema),
+            if full_failed and e["route"].startswith("DataSet") and "exclude_trees" not in e["route"]:
+                # every full data-set read fails on this document (its TREES blocks): agreement among the full reads
+                ctx.note("full-data-set-read-raised:matrix-routes-judged-against-read-without-trees")
+                continue
+            ctx.violation(raised_key(drv, e),
                           "%s(%s) raised %s although %s delivered %d matrices" % (e["route"], e["source"], e["error"][2],
                                                                                  ref_entry["route"], len(want)), wit(drv, e, expect=e["expect"]))
             continue
@@ -820,32 +1348,61 @@ def judge_matrices(ctx, drv):
             exp = want
         else:
             if e["expect"][1] >= len(want):
+                ctx.violation("%s|delivers-matrix-beyond-those-in-the-data-set|%s" % (fam, drv.schema),
+                              "%s(%s) delivered a matrix for %s, but %s holds only %d matrices"
+                              % (e["route"], e["source"], e["expect"][-1], ref_entry["route"], len(want)), wit(drv, e))
                 continue
             exp = [want[e["expect"][1]]]
         got = e["records"]
         if len(got) != len(exp):
-            ctx.violation("%s|count|%s" % (family(e["route"]), drv.schema), "%s delivered %d matrices, %s %d" % (e["route"], len(got), ref_entry["route"], len(exp)),
+            ctx.violation("%s|count|%s" % (fam, drv.schema), "%s delivered %d matrices, %s %d" % (e["route"], len(got), ref_entry["route"], len(exp)),
                           wit(drv, e))
             continue
+        own = e["own_ns"]
         for i, (g, w) in enumerate(zip(got, exp)):
             ctx.ev("matrix-compared")
+            if "_broken" in g or "_broken" in w:
+                ctx.violation("%s|malformed-matrix|%s" % (fam, drv.schema), "record of a delivered matrix could not be extracted: %s"
+                              % (g.get("_broken") or w.get("_broken")), wit(drv, e))
+                break
             c = U.matrix_difference(g, w)
             if c is not None:
-                ctx.violation("%s|%s|%s" % (family(e["route"]), c, drv.schema), "%s(%s) %s: matrix differs in %s from the matrix in %s"
+                ctx.violation("%s|%s|%s" % (fam, c, drv.schema), "%s(%s) %s: matrix differs in %s from the matrix in %s"
                               % (e["route"], e["source"], e["expect"][-1] if e["expect"] else "", c, ref_entry["route"]),
                               wit(drv, e, clause=c, got=U.describe(g, c), reference_value=U.describe(w, c)))
                 break
-            if shared:
+            if own is not None:
+                ctx.ev("client-namespace-judged")
+                members = set(id(t) for t in own)
+                if g["_ns"] is not own:
+                    ctx.violation("%s|matrix-not-attached-to-client-namespace|empty-at-call|%s" % (fam, drv.schema),
+                                  "%s: matrix references another TaxonNamespace than the (empty) one the client passed in" % e["route"], wit(drv, e))
+                    break
+                if any(id(t) not in members for t in g["_taxa"]):
+                    ctx.violation("%s|taxa-not-in-client-namespace|empty-at-call|%s" % (fam, drv.schema),
+                                  "%s: matrix rows belong to Taxon objects that are not members of the namespace the client passed in" % e["route"],
+                                  wit(drv, e))
+                    break
+            elif shared:
                 ctx.ev("taxon-identity-judged")
+                if e["extra"].get("ns_size_before") == 0:
+                    ctx.ev("first-call-on-empty-shared-namespace-judged:%s" % fam)
                 if g["_ns"] is not drv.ns:
-                    ctx.violation("%s|matrix-not-attached-to-shared-namespace|%s" % (family(e["route"]), drv.schema),
+                    ctx.violation("%s|matrix-not-attached-to-shared-namespace|%s" % (fam, drv.schema),
                                   "%s: matrix references another TaxonNamespace than the one passed in" % e["route"], wit(drv, e))
                     break
                 if any(a is not b for a, b in zip(g["_taxa"], w["_taxa"])):
-                    ctx.violation("%s|taxon-identity|%s" % (family(e["route"]), drv.schema),
+                    ctx.violation("%s|taxon-identity|%s" % (fam, drv.schema),
                                   "%s: matrix rows are attached to other Taxon objects than in %s although all calls share one namespace"
                                   % (e["route"], ref_entry["route"]), wit(drv, e, namespace_labels=[t.label for t in drv.ns][:40]))
                     break
+    if shared and ref_entry["records"] and ref_entry["extra"].get("ns_size_before") is not None:
+        # the reference itself: attached to the shared namespace
+        for g in ref_entry["records"]:
+            if "_broken" not in g and g["_ns"] is not drv.ns:
+                ctx.violation("%s|matrix-not-attached-to-shared-namespace|%s" % (family(ref_entry["route"]), drv.schema),
+                              "%s: matrix references another TaxonNamespace than the one passed in" % ref_entry["route"], wit(drv, ref_entry))
+                break
 
 
 # ---------------------------------------------------------------------------------------------------
@@ -863,6 +1420,7 @@ def install_counters(ctx, hooks):
     from dendropy.dataio import newickreader, nexusreader, nexusyielder, nexmlreader
     hooks.install(newickreader.NewickReader, "_parse_tree_statement", outermost_only=False)
     hooks.install(nexusreader.NexusReader, "_parse_trees_block", outermost_only=False)
+    hooks.install(nexusreader.NexusReader, "_parse_taxa_block", outermost_only=False)
     hooks.install(nexusyielder.NexusTreeDataYielder, "_yield_from_trees_block", outermost_only=False)
     hooks.install(nexmlreader._NexmlTreeParser, "build_tree", outermost_only=False)
 
@@ -875,22 +1433,43 @@ def run_document(ctx, doc, options, nsmode, rng, sample=False):
         with Hooks(ctx) as hooks:
             install_counters(ctx, hooks)
             drv = Driver(ctx, doc, options, nsmode, tmp, rng)
+            suffix = "".join("|opt:" + k for k in KEY_OPTIONS if options.get(k))
+            jctx = KeyedCtx(ctx, suffix) if suffix else ctx
+            if nsmode == "shared-prepopulated":
+                drv.prepopulate()
+
+            def tree_phase():
+                drv.run_tree_routes()
+                ref_entry = judge_trees(jctx, drv)
+                if ref_entry is not None and ref_entry["records"]:
+                    recs = ref_entry["records"]
+                    if len(set(r["rooting"] for r in recs)) == 1 and "_broken" not in recs[0]:
+                        drv.run_array_routes(True)
+                        judge_arrays(jctx, drv, ref_entry)
+                    else:
+                        ctx.note("treearray-not-run:mixed-rooting-states")
+
+            def matrix_phase():
+                drv.run_matrix_routes()
+                judge_matrices(jctx, drv)
+            phases = []
+            # a document without a single tree still goes through the full tree routes (they all deliver nothing);
+            # Newick always has a statement
+            if doc["blocks"] or doc["matrices"]:
+                phases.append(tree_phase)
+            if doc["matrices"]:
+                phases.append(matrix_phase)
+                if rng.random() < 0.5:
+                    # the matrix routes get the first turn on the (empty) shared namespace
+                    phases.reverse()
+                    ctx.ev("matrix-routes-before-tree-routes")
             try:
-                if doc["blocks"]:
-                    drv.run_tree_routes()
-                    ref_entry = judge_trees(ctx, drv)
-                    if ref_entry is not None and ref_entry["records"]:
-                        recs = ref_entry["records"]
-                        if len(set(r["rooting"] for r in recs)) == 1 and "_broken" not in recs[0]:
-                            drv.run_array_routes(True)
-                            judge_arrays(ctx, drv, ref_entry)
-                        else:
-                            ctx.note("treearray-not-run:mixed-rooting-states")
-                if doc["matrices"]:
-                    drv.run_matrix_routes()
-                    judge_matrices(ctx, drv)
+                for ph in phases:
+                    ph()
             finally:
                 drv.close()
+            if drv.budget_hit:
+                ctx.mark_inconclusive("a route exceeded the step budget (%d): its entry was not judged" % STEP_LIMIT)
         nt = sum(doc["blocks"])
         if nt >= 2 or len(doc["blocks"]) >= 2 or doc["matrices"]:
             ctx.nontrivial((doc["schema"], doc["text"], sorted(options.items()), nsmode))
@@ -898,24 +1477,35 @@ def run_document(ctx, doc, options, nsmode, rng, sample=False):
             ctx.state((doc["schema"], f, nsmode))
         for k, v in options.items():
             ctx.state(("option", doc["schema"], k, v))
+        for k in sorted(dict(drv.tree_extra, **drv.matrix_extra)):
+            ctx.state(("route-only-option", doc["schema"], k))
         if sample:
             ctx.sample({"schema": doc["schema"], "options": options, "namespace": nsmode, "blocks": doc["blocks"],
                         "matrices": doc["matrices"], "routes_logged": len(drv.log),
+                        "call_order": [e["route"] for e in drv.log][:12],
                         "document": doc["text"][:700]})
     finally:
         shutil.rmtree(tmp, ignore_errors=True)
 
 
+NL_NEXUS = ("#NEXUS%(nl)sBEGIN TAXA;%(nl)s DIMENSIONS NTAX=3;%(nl)s TAXLABELS A 'b%(nl)sc' D;%(nl)sEND;%(nl)s"
+            "BEGIN CHARACTERS;%(nl)s DIMENSIONS NCHAR=3;%(nl)s FORMAT DATATYPE=DNA;%(nl)s MATRIX%(nl)s  A ACG%(nl)s  'b%(nl)sc' A[in%(nl)srow]CT%(nl)s"
+            "  D ACC%(nl)s ;%(nl)sEND;%(nl)s"
+            "BEGIN TREES;%(nl)s TREE t = [tree%(nl)scomment] (A:1,'b%(nl)sc':2,D:3)[x%(nl)sy];%(nl)sEND;%(nl)s")
+NL_NEWICK = "[line one%(nl)sline two](A:1,'b%(nl)sc':2,D:3)[node%(nl)scomment]:0;%(nl)s(A,'b%(nl)sc',(D,E)[in%(nl)sner]);%(nl)s"
+
+
 def newline_probe(ctx):
     """Line breaks INSIDE comments and quoted labels.  A path and an already open text file are the same file read
-    through Python's text layer, so every route must deliver identical records from path= and from stream=open(path)
-    (judged).  A string keeps CR / CR LF where a file read translates them to LF: that difference is recorded only."""
+    through Python's text layer, so every route must deliver identical records from path= (str and pathlib) and from
+    stream=open(path) (judged) - also the routes that open files themselves (Tree.yield_from_files,
+    TreeArray.read_from_files).  A string keeps CR / CR LF where a file read translates them to LF: that difference is
+    recorded only."""
     import dendropy
     tmp = tempfile.mkdtemp(prefix="vf-c13-")
     try:
         for nl in ("\r\n", "\r", "\n"):
-            texts = {"newick": "[line one%sline two](A:1,'b%sc':2)[node%scomment]:0;%s[&R](A,'b%sc');%s" % (nl, nl, nl, nl, nl, nl),
-                     "nexus": "#NEXUS%sBEGIN TREES;%s TREE t = [tree%scomment] (A,'b%sc')[x%sy];%sEND;%s" % (nl, nl, nl, nl, nl, nl, nl)}
+            texts = {"newick": NL_NEWICK % {"nl": nl}, "nexus": NL_NEXUS % {"nl": nl}}
             for schema, text in sorted(texts.items()):
                 p = os.path.join(tmp, "nl.%s" % schema)
                 with open(p, "w", newline="") as f:
@@ -930,48 +1520,93 @@ def newline_probe(ctx):
                     x = dendropy.DataSet()
                     x.read(schema=schema, **kw)
                     return [t for tl in x.tree_lists for t in tl]
-                routes = [("Tree.get", lambda **kw: [dendropy.Tree.get(schema=schema, **kw)]),
-                          ("TreeList.get", lambda **kw: list(dendropy.TreeList.get(schema=schema, **kw))),
-                          ("TreeList.read", tl_read),
-                          ("DataSet.get", lambda **kw: [t for tl in dendropy.DataSet.get(schema=schema, **kw).tree_lists for t in tl]),
-                          ("DataSet.read", ds_read)]
-                recs = {}
-                for name, fn in routes:
+
+                def src_item(kw):
+                    # the file-list routes take the path / open file as an item of files=
+                    return kw.get("path", kw.get("stream"))
+
+                def array_summary(ta):
+                    # per tree: its splits as label sets (labels carry the line break) with their lengths
+                    ns = ta.taxon_namespace
+                    bit = [(ns.taxon_bitmask(tx), tx.label) for tx in ns]
+                    out = []
+                    for row, ln in zip(ta._tree_split_bitmasks, ta._tree_edge_lengths):
+                        pairs = sorted((tuple(sorted(str(lab) for b, lab in bit if m & b)), repr(x))
+                                       for m, x in zip(row, ln or [None] * len(row)))
+                        out.append({"splits": tuple(q[0] for q in pairs), "lengths": tuple(q[1] for q in pairs)})
+                    return out
+
+                def ta_files(**kw):
+                    ta = dendropy.TreeArray()
+                    ta.read_from_files(files=[src_item(kw)], schema=schema)
+                    return array_summary(ta)
+
+                def ta_read(**kw):
+                    ta = dendropy.TreeArray()
+                    ta.read(schema=schema, **kw)
+                    return array_summary(ta)
+                tree_rec = U.tree_record
+                routes = [("Tree.get", lambda **kw: [dendropy.Tree.get(schema=schema, **kw)], tree_rec, U.CLAUSES),
+                          ("TreeList.get", lambda **kw: list(dendropy.TreeList.get(schema=schema, **kw)), tree_rec, U.CLAUSES),
+                          ("TreeList.read", tl_read, tree_rec, U.CLAUSES),
+                          ("DataSet.get", lambda **kw: [t for tl in dendropy.DataSet.get(schema=schema, **kw).tree_lists for t in tl],
+                           tree_rec, U.CLAUSES),
+                          ("DataSet.read", ds_read, tree_rec, U.CLAUSES),
+                          ("yield_from_files", lambda **kw: list(dendropy.Tree.yield_from_files(files=[src_item(kw)], schema=schema)),
+                           tree_rec, U.CLAUSES),
+                          ("TreeArray.read", ta_read, lambda x: x, ("splits", "lengths")),
+                          ("TreeArray.read_from_files", ta_files, lambda x: x, ("splits", "lengths"))]
+                if schema == "nexus":
+                    routes.append(("CharacterMatrix.get", lambda **kw: [dendropy.DnaCharacterMatrix.get(schema=schema, **kw)],
+                                   U.matrix_record, U.MATRIX_CLAUSES))
+                    routes.append(("DataSet.get.char_matrices", lambda **kw: list(dendropy.DataSet.get(schema=schema, **kw).char_matrices),
+                                   U.matrix_record, U.MATRIX_CLAUSES))
+                for name, fn, rec, clauses in routes:
                     try:
                         with open(p, "r") as f:
-                            via_stream = [U.tree_record(t) for t in fn(stream=f)]
-                        via_path = [U.tree_record(t) for t in fn(path=p)]
-                        via_string = [U.tree_record(t) for t in fn(data=text)]
+                            via_stream = [rec(t) for t in fn(stream=f)]
+                        via_path = [rec(t) for t in fn(path=p)]
+                        via_pathlib = [rec(t) for t in fn(path=pathlib.Path(p))]
+                        via_string = None
+                        if not name.endswith("_files"):
+                            via_string = [rec(t) for t in fn(data=text)]
+                    except core.CaseTimeout:
+                        raise
                     except Exception as x:
                         ctx.unexpected("newline-probe:%s" % name, x, {"schema": schema, "text": text})
                         continue
-                    ctx.ev("newline-probe-judged")
-                    diff = [c for a, b in zip(via_path, via_stream) for c in U.CLAUSES if a[c] != b[c]]
-                    if len(via_path) != len(via_stream) or diff:
-                        ctx.violation("source|%s|path-vs-open-file|line-break-inside-comment-or-label|%s" % (name, schema),
-                                      "%s delivers different %s from path= than from the same file opened by the caller"
-                                      % (name, sorted(set(diff)) or "tree counts"),
-                                      {"schema": schema, "text": text, "line_break": repr(nl),
-                                       "path": [U.public(r) for r in via_path][:1], "stream": [U.public(r) for r in via_stream][:1]})
-                    sdiff = [c for a, b in zip(via_path, via_string) for c in U.CLAUSES if a[c] != b[c]]
-                    if sdiff:
-                        ctx.note("line-break-inside-comment:string-and-path-differ(universal-newlines):%s" % repr(nl))
+                    for form, via in (("path", via_path), ("pathlib", via_pathlib)):
+                        ctx.ev("newline-probe-judged")
+                        diff = [c for a, b in zip(via, via_stream) for c in clauses if a[c] != b[c]]
+                        if len(via) != len(via_stream) or diff:
+                            ctx.violation("source|%s|%s-vs-open-file|line-break-inside-comment-or-label|%s" % (name, form, schema),
+                                          "%s delivers different %s from path= (%s) than from the same file opened by the caller"
+                                          % (name, sorted(set(diff)) or "counts", form),
+                                          {"schema": schema, "text": text, "line_break": repr(nl),
+                                           "path": [U.public(r) for r in via][:1], "stream": [U.public(r) for r in via_stream][:1]})
+                    if via_string is not None:
+                        sdiff = [c for a, b in zip(via_path, via_string) for c in clauses if a[c] != b[c]]
+                        if sdiff:
+                            ctx.note("line-break-inside-comment:string-and-path-differ(universal-newlines):%s" % repr(nl))
     finally:
         shutil.rmtree(tmp, ignore_errors=True)
 
 
-def nexml_chars_document(rng, nl):
+def nexml_chars_document(ctx, rng, nl):
     """NeXML text with character matrices: a templated NEXUS document (no anonymous multi-state cells) converted
     once by the library's writer - only a source of text; the routes are then compared on that text."""
     import dendropy
-    d = U.nexus_doc(rng, hostile=False, nl="\n", with_chars=True, allow_multistate=False)
+    d = U.nexus_doc(rng, hostile=False, nl="\n", with_chars=True, allow_multistate=False, allow_multi_taxa=False)
     try:
         ds = dendropy.DataSet.get(data=d["text"], schema="nexus")
         text = ds.as_string(schema="nexml")
         dendropy.DataSet.get(data=text, schema="nexml")   # the writer's output is not always readable (C09's business)
-    except Exception:
+    except core.CaseTimeout:
+        raise
+    except Exception as x:
+        ctx.note("nexml-chars-document-not-producible:%s" % type(x).__name__)
         return None
-    return {"schema": "nexml", "text": text, "blocks": [len(tl) for tl in ds.tree_lists if len(tl)],
+    return {"schema": "nexml", "text": text, "blocks": [len(tl) for tl in ds.tree_lists],
             "features": ["chars-via-writer"] + d["features"], "matrices": [cm.data_type for cm in ds.char_matrices]}
 
 
@@ -981,10 +1616,20 @@ def run_case(case, ctx):
     if kind == "directed":
         d = [x for x in DIRECTED if x[0] == case["name"]][0]
         doc = {"schema": d[1], "text": d[2], "blocks": d[3], "matrices": d[4], "features": ["directed:" + d[0]]}
+        doc.update(DIRECTED_META.get(d[0], {}))
         if d[1] == "nexml-via-writer":
+            # set-up, not a route: a reader / writer exception here says nothing about two routes disagreeing
             import dendropy
             doc["schema"] = "nexml"
-            doc["text"] = dendropy.DataSet.get(data=d[2], schema="nexus").as_string(schema="nexml")
+            try:
+                doc["text"] = dendropy.DataSet.get(data=d[2], schema="nexus").as_string(schema="nexml")
+            except core.CaseTimeout:
+                raise
+            except Exception as x:
+                ctx.note("directed-nexml-via-writer-not-producible:%s:%s" % (d[0], core.exc_key(x)))
+                ctx.mark_inconclusive("set-up of directed case %s failed (%s): the case was not run" % (d[0], core.exc_brief(x)))
+                return
+        ctx.ev("directed-case-run")
         run_document(ctx, doc, d[5], d[6], rng, sample=True)
         return
     if kind == "newline-probe":
@@ -1003,16 +1648,17 @@ def run_case(case, ctx):
         else:
             doc = U.nexml_doc(rng, hostile, nl)
     else:
-        schema = rng.choice(["nexus", "nexus", "nexus", "nexml"])
-        options, force = make_options(rng, schema)
+        schema = rng.choice(["nexus", "nexus", "nexus", "nexus", "nexml", "nexml-hand-written"])
+        options, force = make_options(rng, "nexml" if schema.startswith("nexml") else schema)
         for k in ("edge_length_type", "suppress_edge_lengths"):
             options.pop(k, None)
         if schema == "nexus":
             doc = U.nexus_doc(rng, hostile, nl, force, with_chars=True)
+        elif schema == "nexml-hand-written":
+            doc = U.nexml_chars_doc(rng, hostile, nl)
         else:
-            doc = nexml_chars_document(rng, nl)
+            doc = nexml_chars_document(ctx, rng, nl)
             if doc is None:
-                ctx.note("nexml-chars-document-not-producible")
                 return
     if options.get("case_sensitive_taxon_labels") and nsmode == "fresh" and rng.random() < 0.8:
         nsmode = "shared-empty"      # the fresh / case-sensitive combination is a directed case
